@@ -1,8 +1,15 @@
 """C47 System-identification inertia parameters are always physical (log-Cholesky parametrisation).
 
-Static analysis (ast only) of python/mujoco/sysid/_src/model_modifier.py.
+Static analysis (ast only) of python/mujoco/sysid/_src/model_modifier.py by an abstract interpreter (class Interp) that
+executes what the code does rather than matching one layout: straight-line code; `for` over statically known sequences
+(literal tuples / lists / dicts of index pairs or names, range / enumerate / zip / .items() of those) is unrolled; `if` is
+executed when the bound constants decide its test (None tests, equality of constants and enum members) and skipped when it
+only raises; helper functions (closures, functions of the module that are not anchors of a rule, module-level tables) are
+evaluated by binding their parameters; comprehensions over static sequences are unrolled; setattr / getattr with constant
+names are attribute stores / reads.  Whatever is outside that is an AnalysisError (exit 2), never a pass and never a
+violation; a matrix handed to code the interpreter does not execute is "not decided", not "any value".
 
-R-SIGN   abstract interpretation of `pi_from_theta` over the sign domain {ZERO, POS, ANY} with 2-D grids for
+R-SIGN   abstract interpretation of `pi_from_theta` over the sign domain {ZERO, POS, NEG, ANY} with 2-D grids for
          matrices of literal shape: the factor U built from theta is triangular (every entry on one side of the
          diagonal is ZERO), every diagonal entry is POS (exp(..), positive literal, products/quotients of those),
          the pseudo-inertia is its Gram matrix (U @ U.T or U.T @ U), the mass (first element of the returned
@@ -15,14 +22,24 @@ R-TABLE  slot maps: for every theta slot i, (inverse map o forward map)(theta)[i
          theta[i] (exp/log/product/quotient normal form); forward-written and inverse-read positions of U coincide;
          the segments of the returned pi vector ([m], h, I_bar.flatten()) are read back at the same offsets by
          `pseudoinertia_from_pi` / `apply_body_theta_inertia` and land in the blocks of J they were taken from;
-         the rows of the parameter bounds built in `body_inertia_param` are in theta slot order.
-Does not decide: floating-point overflow/underflow of exp, compiled mass properties of the spec.
+         the row groups of the parameter bounds built in `body_inertia_param` are in theta slot order.
+R-APPLY  `apply_body_theta_inertia` writes the mass segment to body.mass, first moment / mass to body.ipos and
+         I_bar + m S(ipos) S(ipos) (S = skew) to body.fullinertia in MuJoCo's order M11 M22 M33 M12 M13 M23; this is the
+         inverse of `pi_from_body`, which forms I_bar = fullinertia - m S(ipos) S(ipos); `apply_body_inertia` hands
+         `param.value` of a pseudo-inertia parameter (and of no other type) to it.
+R-BOUNDS for the pseudo-inertia type `body_inertia_param` constructs Parameter(nominal = theta, min_value = column 0,
+         max_value = column 1 of the stacked [low, high] rows) and every row group is a non-decreasing function of its
+         [low, high] pair (order domain UNIFORM / ORDERED / REVERSED over exp, log, positive / negative scaling, offsets),
+         both for a pair supplied by the caller and for the built-in default pairs, so that lower <= upper.
+Does not decide: floating-point overflow/underflow of exp, compiled mass properties of the spec, which bound pair belongs
+to which slot group, that a row group equals theta at the neutral pair.
 """
 from __future__ import annotations
 
 import ast
 import math
 import os
+import re
 
 from .. import cfront
 from ..cfront import AnalysisError
@@ -35,8 +52,18 @@ CHOL = "cholesky_decompose_upper"
 APPLY = "apply_body_theta_inertia"
 PARAMFN = "body_inertia_param"
 
+BODYPI = "pi_from_body"
+DISPATCH = "apply_body_inertia"
+SKEW = "skew"
+THETA_SOURCES = ("theta_inertia_from_body", INV)
+PARAM_FILE = "python/mujoco/sysid/_src/parameter.py"
+# MuJoCo's body/inertial/fullinertia attribute: M(1,1), M(2,2), M(3,3), M(1,2), M(1,3), M(2,3)  (doc/XMLreference.rst)
+MJ_FULLINERTIA_ORDER = [(0, 0), (1, 1), (2, 2), (0, 1), (0, 2), (1, 2)]
+
 FLOOR_SIGN = 15      # 6 off-triangle zeros, 4 positive diagonals, gram, mass-diagonal, 2 reversal conjugations, factor kind
 FLOOR_TABLE = 21     # 10 slot round trips, position coverage, 3 pi segments x 2 readers, 4 bound row groups
+FLOOR_APPLY = 11     # body.mass, body.ipos, parallel-axis term (apply and pi_from_body), 6 fullinertia entries, dispatch
+FLOOR_BOUNDS = 10    # nominal, low/high columns, 4 row groups x (supplied pair, default pair)
 
 Z, P, A = "ZERO", "POS", "ANY"
 
@@ -160,20 +187,40 @@ def slot_of(v):
 # ---------------------------------------------------------------------------------------------
 # abstract values
 
+NC = object()          # "no compile-time constant"
+N = "NEG"              # fourth sign: strictly negative (only used to orient monotone maps; rules test ZERO / POS)
+U_, ORD, REV, UNK = "UNIFORM", "ORDERED", "REVERSED", "?"      # order of a [low, high] pair along the last axis
+
+
 class Val:
-    """kind: scalar | mat | gram | vec | other.  sign (scalar) / grid of (sign, sym) (mat)."""
+    """kind: scalar | mat | gram | seq | dict | none | other | ...   sign (uniform bound for every entry) / grid of
+    (sign, sym, line) for matrices of literal shape.
+    const   compile-time constant (int / float / str / None / tuple of those / ("sym", dotted) for enum members)
+    of      static structure: element Vals of a seq, (key, value) pairs of a dict, operands of a product / sum
+    fields  attribute values stored on the object by the interpreted code
+    pair    how the value depends on a [low, high] bound pair: UNIFORM (not at all), ORDERED (low <= high is kept),
+            REVERSED, "?"
+    null    True: is None, False: is not None, None: unknown"""
 
     def __init__(self, kind="other", sign=A, sym=None, grid=None, shape=None, deps=None, of=None, order=None,
-                 block=None, line=0):
+                 block=None, line=0, const=NC, null=None, pair=UNK, fn=None):
         self.kind, self.sign, self.sym, self.grid, self.shape = kind, sign, sym, grid, shape
         self.deps = set(deps or ())
         self.of, self.order, self.block, self.line = of, order, block, line
+        self.const, self.null, self.pair, self.fn = const, null, pair, fn
+        self.fields = None
+        self.kw = None
+        self.uninterp = None       # (line, why): a matrix changed by code the interpreter does not execute
 
 
 def s_mul(a, b):
     if Z in (a, b):
         return Z
-    return P if a == P and b == P else A
+    if a == P and b == P or a == N and b == N:
+        return P
+    if {a, b} == {P, N}:
+        return N
+    return A
 
 
 def s_add(a, b):
@@ -181,7 +228,44 @@ def s_add(a, b):
         return b
     if b == Z:
         return a
-    return P if a == P and b == P else A
+    return a if a == b and a in (P, N) else A
+
+
+def s_neg(a):
+    return {Z: Z, P: N, N: P}.get(a, A)
+
+
+def s_div(a, b):
+    if b not in (P, N):
+        return A
+    return s_mul(a, b)
+
+
+def p_flip(p):
+    return {ORD: REV, REV: ORD}.get(p, p)
+
+
+def p_add(a, b):
+    if a == U_:
+        return b
+    if b == U_:
+        return a
+    return a if a == b and a in (ORD, REV) else UNK
+
+
+def p_scale(p, sign):
+    """pair order of (value with order p) * (pair-independent factor of the given sign)"""
+    if p == U_ or sign == Z:
+        return U_
+    if sign == P:
+        return p
+    if sign == N:
+        return p_flip(p)
+    return UNK
+
+
+def p_all_uniform(vals):
+    return U_ if all(v.pair == U_ for v in vals) else UNK
 
 
 def const_int(e):
@@ -207,90 +291,400 @@ def index_extent(ix, n):
     return None
 
 
-class Interp:
-    """straight-line abstract interpreter for the forward / inverse maps"""
+def is_newaxis(e):
+    return (isinstance(e, ast.Constant) and e.value is None) or \
+           (isinstance(e, ast.Attribute) and e.attr == "newaxis")
 
-    def __init__(self, mod, fn, np_names, param_vals=None):
-        self.mod, self.fn, self.np = mod, fn, np_names
+
+def const_node(c):
+    if isinstance(c, int) and not isinstance(c, bool) and c < 0:
+        return ast.UnaryOp(op=ast.USub(), operand=ast.Constant(value=-c))
+    return ast.Constant(value=c)
+
+
+class _Return(Exception):
+    def __init__(self, value):
+        self.value = value
+
+
+class _Break(Exception):
+    pass
+
+
+class _Continue(Exception):
+    pass
+
+
+class Ctx:
+    """what one interpretation shares between the frames of the function and of the helpers it calls"""
+
+    def __init__(self, mod, hooks=None, atoms=()):
+        self.mod = mod
+        self.np = mod.np
+        self.hooks = dict(hooks or {})    # function name -> callable(interp, call node, args, kwargs) -> Val
+        self.atoms = set(atoms)           # functions kept as opaque, named values (anchors of a rule)
+        self.stores = []                  # (base name, index node, value Val, line, target Val)
+        self.reads = []                   # (value Val, base name, index node, line)
+        self.attr_stores = []             # dict(obj, name, attr, index, val, line, depth)
+        self.calls = []                   # (function name, args, kwargs, line) of atoms / hooks / unknown callees
+        self.unpack = {}                  # id(Val) -> number of names it was unpacked into
+        self.inlined = set()
+        self.np_hooks = {}                # numpy function name ("linalg.cholesky") -> callable, as hooks
+
+
+MAX_DEPTH = 8
+MAX_UNROLL = 4096
+
+
+class Interp:
+    """abstract interpreter for the forward / inverse maps and their readers.  Straight-line code is executed;
+    `for` over a statically known sequence (literal tuple/list/dict, range/enumerate/zip/.items() of those) is unrolled;
+    `if` is executed when its test is decided by the bound constants (None tests, equality of constants / enum
+    members), skipped when it only raises (input validation); helper functions (closures, private or public functions
+    of the module that are not anchors of a rule) are evaluated by binding their parameters; comprehensions over
+    static sequences are unrolled.  Anything else is an AnalysisError."""
+
+    def __init__(self, ctx, fn, param_vals=None, parent=None, depth=0):
+        self.ctx, self.fn, self.parent, self.depth = ctx, fn, parent, depth
+        self.mod, self.np = ctx.mod, ctx.np
         self.env = dict(param_vals or {})
         self.ret = None
-        self.stores = []          # (base name, index node, value Val, line)
-        self.reads = []           # (base name, index node, line)
-        self.unpack = {}          # base name -> number of names unpacked
+        self.ret_node = None
+        for n in ast.walk(fn):
+            if isinstance(n, (ast.Global, ast.Nonlocal, ast.Yield, ast.YieldFrom, ast.Await)):
+                raise AnalysisError(f"{FILE}:{n.lineno}: {type(n).__name__} in {fn.name} is not supported by the sign interpreter")
 
+    # legacy accessors (the rules read these from the top frame)
+    @property
+    def stores(self):
+        return self.ctx.stores
+
+    @property
+    def unpack(self):
+        return self.ctx.unpack
+
+    # ---- names
+    def lookup(self, name):
+        f = self
+        while f is not None:
+            if name in f.env:
+                return f.env[name]
+            f = f.parent
+        return self.mod.global_val(name, self.ctx)
+
+    def err(self, node, what):
+        return AnalysisError(f"{FILE}:{getattr(node, 'lineno', 0)}: {what} in {self.fn.name} is not supported by the sign interpreter")
+
+    # ---- statements
     def run(self):
-        for st in self.fn.body:
-            if isinstance(st, ast.Expr) and isinstance(st.value, ast.Constant):
-                continue
-            if isinstance(st, ast.Assign) and len(st.targets) == 1:
-                self.assign(st.targets[0], st.value, st)
-            elif isinstance(st, ast.AugAssign):
-                fake = ast.BinOp(left=st.target, op=st.op, right=st.value)
-                ast.copy_location(fake, st)
-                ast.fix_missing_locations(fake)
-                self.assign(st.target, fake, st)
-            elif isinstance(st, ast.Return):
-                self.ret = self.ev(st.value)
-                self.ret_node = st.value
-            elif isinstance(st, (ast.If, ast.For, ast.While, ast.Try, ast.With)):
-                if st is not self.fn.body[0] and self.allow_guard(st):
-                    continue
-                raise AnalysisError(f"{FILE}:{st.lineno}: control flow in {self.fn.name} is not supported by the sign interpreter")
-            elif isinstance(st, (ast.Assert, ast.Pass)):
-                continue
-            elif isinstance(st, ast.Expr):
-                self.ev(st.value)
-            else:
-                raise AnalysisError(f"{FILE}:{st.lineno}: statement {type(st).__name__} in {self.fn.name} is not supported")
+        try:
+            self.block(self.fn.body)
+        except _Return as r:
+            self.ret = r.value
+        except (_Break, _Continue):
+            raise self.err(self.fn, "break/continue outside a loop")
         return self
 
-    def allow_guard(self, st):
-        # `if <cond>: raise ...` input validation does not change the map
-        return isinstance(st, ast.If) and not st.orelse and all(isinstance(b, ast.Raise) for b in st.body)
+    def block(self, stmts):
+        for st in stmts:
+            self.stmt(st)
 
-    def assign(self, t, rhs, st):
-        if isinstance(t, (ast.Tuple, ast.List)):
-            src = self.ev(rhs)
-            if isinstance(rhs, ast.Name):
-                self.unpack[rhs.id] = len(t.elts)
-            for i, e in enumerate(t.elts):
-                if not isinstance(e, ast.Name):
-                    raise AnalysisError(f"{FILE}:{st.lineno}: unsupported unpacking target")
-                if src.kind == "theta":
-                    self.env[e.id] = Val("scalar", A, Lin(0.0, {i: 1}), deps={(src.block, str(i))}, line=st.lineno)
-                else:
-                    self.env[e.id] = Val("scalar", A, None, deps=src.deps)
+    def stmt(self, st):
+        if isinstance(st, ast.Expr):
+            if not isinstance(st.value, ast.Constant):
+                self.ev(st.value)
+        elif isinstance(st, ast.Assign):
+            v = self.ev(st.value)
+            for t in st.targets:
+                self.assign(t, v, st, st.value)
+        elif isinstance(st, ast.AnnAssign):
+            if st.value is not None:
+                self.assign(st.target, self.ev(st.value), st, st.value)
+        elif isinstance(st, ast.AugAssign):
+            fake = ast.BinOp(left=st.target, op=st.op, right=st.value)
+            ast.copy_location(fake, st)
+            ast.fix_missing_locations(fake)
+            self.assign(st.target, self.ev(fake), st, None, aug=type(st.op).__name__)
+        elif isinstance(st, ast.Return):
+            if self.depth == 0:
+                self.ret_node = st.value
+            raise _Return(self.ev(st.value) if st.value is not None else Val("none", const=None, null=True, pair=U_))
+        elif isinstance(st, ast.If):
+            self.s_if(st)
+        elif isinstance(st, ast.For):
+            self.s_for(st)
+        elif isinstance(st, ast.FunctionDef):
+            self.env[st.name] = Val("function", fn=(st, self), null=False, pair=U_)
+        elif isinstance(st, (ast.Assert, ast.Pass, ast.Import, ast.ImportFrom)):
+            pass
+        elif isinstance(st, ast.Break):
+            raise _Break()
+        elif isinstance(st, ast.Continue):
+            raise _Continue()
+        elif isinstance(st, ast.Raise):
+            raise AnalysisError(f"{FILE}:{st.lineno}: the interpreted path of {self.fn.name} raises unconditionally")
+        elif isinstance(st, (ast.While, ast.Try, ast.With)):
+            raise AnalysisError(f"{FILE}:{st.lineno}: control flow in {self.fn.name} is not supported by the sign interpreter")
+        else:
+            raise AnalysisError(f"{FILE}:{st.lineno}: statement {type(st).__name__} in {self.fn.name} is not supported")
+
+    @staticmethod
+    def only_raises(stmts):
+        """every path through the statements ends in `raise` (input validation: does not change the map)"""
+        if not stmts:
+            return False
+        last = stmts[-1]
+        if isinstance(last, ast.Raise):
+            return all(isinstance(s, (ast.Raise, ast.Expr, ast.Assign, ast.Pass)) for s in stmts)
+        if isinstance(last, ast.If) and last.orelse:
+            return Interp.only_raises(last.body) and Interp.only_raises(last.orelse)
+        return False
+
+    def s_if(self, st):
+        t = self.truth(st.test)
+        if t is True:
+            self.block(st.body)
+        elif t is False:
+            self.block(st.orelse)
+        elif not st.orelse and self.only_raises(st.body):
             return
-        v = self.ev(rhs)
+        elif st.orelse and self.only_raises(st.orelse) and not self.only_raises(st.body):
+            self.block(st.body)                  # `if ok: ... else: raise`
+        elif self.only_raises(st.body) and st.orelse:
+            self.block(st.orelse)                # `if bad: raise ... else: ...`
+        else:
+            raise AnalysisError(f"{FILE}:{st.lineno}: control flow in {self.fn.name} is not supported by the sign interpreter "
+                                f"(the test `{txt(st.test)[:60]}` is not decided by the bound constants)")
+
+    def s_for(self, st):
+        items = self.static_items(self.ev(st.iter))
+        if items is None:
+            raise AnalysisError(f"{FILE}:{st.lineno}: control flow in {self.fn.name} is not supported by the sign interpreter "
+                                f"(loop over `{txt(st.iter)[:60]}`, which is not a statically known sequence)")
+        if len(items) > MAX_UNROLL:
+            raise self.err(st, "a loop with too many iterations")
+        broke = False
+        for it in items:
+            self.assign(st.target, it, st, None)
+            try:
+                self.block(st.body)
+            except _Continue:
+                continue
+            except _Break:
+                broke = True
+                break
+        if not broke:
+            self.block(st.orelse)
+
+    # ---- static sequences
+    def static_items(self, v):
+        """element Vals when the value is a sequence known at analysis time, else None"""
+        if v.kind == "seq" and v.of is not None:
+            return list(v.of)
+        if v.kind == "dict" and v.of is not None:
+            return [k for k, _ in v.of]
+        return None
+
+    def mkseq(self, vals, line=0, tag="tuple"):
+        """tag: "tuple" (an index made of it addresses one element) or "list" (fancy indexing: not interpreted)"""
+        deps = set().union(*[v.deps for v in vals]) if vals else set()
+        shape = (len(vals),) if all(v.shape == () for v in vals) else None
+        const = tuple(v.const for v in vals) if all(v.const is not NC for v in vals) else NC
+        pair = UNK
+        if len(vals) == 2 and all(isinstance(v.const, (int, float)) and not isinstance(v.const, bool) for v in vals):
+            pair = ORD if vals[0].const <= vals[1].const else REV
+        elif vals and all(v.pair == U_ for v in vals) and len(vals) != 2:
+            pair = U_
+        sign = vals[0].sign if vals and all(v.sign == vals[0].sign for v in vals) else A
+        return Val("seq", sign=sign, deps=deps, shape=shape, of=list(vals), const=const, null=False, pair=pair, line=line,
+                   block=tag)
+
+    def const_val(self, c, line=0):
+        if c is None:
+            return Val("none", const=None, null=True, pair=U_)
+        if isinstance(c, bool):
+            return Val("other", const=c, null=False, pair=U_)
+        if isinstance(c, (int, float)):
+            return Val("scalar", P if c > 0 else Z if c == 0 else N, Term(float(c)), shape=(), const=c, null=False,
+                       pair=U_, line=line)
+        if isinstance(c, tuple):
+            return self.mkseq([self.const_val(x) for x in c])
+        return Val("other", const=c, null=False, pair=U_)
+
+    # ---- assignment
+    def assign(self, t, v, st, rhs_node, aug=None):
+        line = getattr(st, "lineno", 0)
+        if isinstance(t, (ast.Tuple, ast.List)):
+            if any(isinstance(e, ast.Starred) for e in t.elts):
+                raise AnalysisError(f"{FILE}:{line}: unsupported unpacking target")
+            if isinstance(rhs_node, ast.Name):
+                self.ctx.unpack[id(v)] = len(t.elts)
+            items = self.static_items(v)
+            for i, e in enumerate(t.elts):
+                if items is not None and len(items) == len(t.elts):
+                    self.assign(e, items[i], st, None)
+                elif v.kind == "theta":
+                    self.assign(e, self.theta_slot(v, i, line), st, None)
+                elif isinstance(e, ast.Name):
+                    self.env[e.id] = Val("scalar", A, None, deps=v.deps)
+                else:
+                    raise AnalysisError(f"{FILE}:{line}: unsupported unpacking target")
+            return
         if isinstance(t, ast.Name):
             self.env[t.id] = v
             return
-        if isinstance(t, ast.Subscript) and isinstance(t.value, ast.Name):
+        if isinstance(t, ast.Subscript):
+            sl = self.resolve_slice(t.slice)
+            if isinstance(t.value, ast.Attribute):
+                obj = self.ev(t.value.value)
+                self.ctx.attr_stores.append({"obj": obj, "name": txt(t.value.value), "attr": t.value.attr, "index": sl,
+                                             "val": v, "line": line, "depth": self.depth, "aug": aug})
+                return
+            if not isinstance(t.value, ast.Name):
+                self.ev(t.value)
+                return
             base = t.value.id
-            self.stores.append((base, t.slice, v, st.lineno))
-            m = self.env.get(base)
-            if m is not None and m.kind == "mat":
-                ix = t.slice.elts if isinstance(t.slice, ast.Tuple) else [t.slice]
+            m = self.lookup(base)
+            self.ctx.stores.append((base, sl, v, line, m))
+            if m.kind == "dict" and m.of is not None:
+                k = self.ev(sl) if not isinstance(sl, ast.Slice) else Val()
+                if k.const is NC:
+                    m.of = None
+                else:
+                    m.of = [(a, b) for a, b in m.of if a.const != k.const] + [(k, v)]
+                return
+            if m.kind == "seq" and m.of is not None:
+                c = const_int(sl)
+                if c is not None and -len(m.of) <= c < len(m.of):
+                    m.of[c] = v
+                    m.const = NC
+                else:
+                    m.of = None
+                return
+            if m.kind == "mat":
+                ix = sl.elts if isinstance(sl, ast.Tuple) else [sl]
                 ints = [const_int(i) for i in ix]
                 if len(ix) == 2 and all(i is not None for i in ints) and v.kind == "scalar":
                     r, c = ints
                     if not (0 <= r < m.shape[0] and 0 <= c < m.shape[1]):
-                        raise AnalysisError(f"{FILE}:{st.lineno}: index out of the literal shape")
-                    m.grid[r][c] = (v.sign, v.sym, st.lineno)
+                        raise AnalysisError(f"{FILE}:{line}: index out of the literal shape")
+                    m.grid[r][c] = (v.sign, v.sym, line)
                 else:
                     # non-constant or block store: every entry may have been overwritten with anything
                     ext = [index_extent(i, m.shape[k]) for k, i in enumerate(ix)] if len(ix) == 2 else [None, None]
+                    if not all(ext):
+                        m.uninterp = m.uninterp or (line, f"store at `{txt(sl)}`, which is not a constant position")
                     rows = range(*ext[0][1:]) if ext[0] else range(m.shape[0])
                     cols = range(*ext[1][1:]) if ext[1] else range(m.shape[1])
                     for r in rows:
                         for c in cols:
-                            m.grid[r][c] = (A, None, st.lineno)
+                            if 0 <= r < m.shape[0] and 0 <= c < m.shape[1]:
+                                m.grid[r][c] = (A, None, line)
                 m.deps |= v.deps
             return
-        if isinstance(t, ast.Attribute) or isinstance(t, ast.Subscript):
+        if isinstance(t, ast.Attribute):
+            obj = self.ev(t.value)
+            self.attr_store(obj, txt(t.value), t.attr, v, line, aug)
             return
-        raise AnalysisError(f"{FILE}:{st.lineno}: unsupported assignment target")
+        raise AnalysisError(f"{FILE}:{line}: unsupported assignment target")
 
+    def attr_store(self, obj, name, attr, v, line, aug=None):
+        self.ctx.attr_stores.append({"obj": obj, "name": name, "attr": attr, "index": None, "val": v, "line": line,
+                                     "depth": self.depth, "aug": aug})
+        if obj.fields is None:
+            obj.fields = {}
+        obj.fields[attr] = v
+
+    def theta_slot(self, v, i, line):
+        return Val("scalar", A, Lin(0.0, {i: 1}), shape=(), deps={(v.block, str(i))}, line=line, null=False, pair=U_)
+
+    # ---- index resolution: names bound to constants are replaced by the constants
+    def const_of(self, e):
+        """python constant of a side-effect-free index expression, or NC"""
+        if isinstance(e, ast.Constant):
+            return e.value if not isinstance(e.value, bool) else NC
+        if isinstance(e, ast.Name):
+            return self.lookup(e.id).const
+        if isinstance(e, ast.UnaryOp) and isinstance(e.op, (ast.USub, ast.UAdd)):
+            c = self.const_of(e.operand)
+            return NC if not isinstance(c, (int, float)) else (-c if isinstance(e.op, ast.USub) else c)
+        if isinstance(e, ast.BinOp) and isinstance(e.op, (ast.Add, ast.Sub, ast.Mult, ast.FloorDiv, ast.Mod)):
+            a, b = self.const_of(e.left), self.const_of(e.right)
+            if isinstance(a, int) and isinstance(b, int) and not isinstance(a, bool) and not isinstance(b, bool):
+                if isinstance(e.op, ast.Add):
+                    return a + b
+                if isinstance(e.op, ast.Sub):
+                    return a - b
+                if isinstance(e.op, ast.Mult):
+                    return a * b
+                if b != 0:
+                    return a // b if isinstance(e.op, ast.FloorDiv) else a % b
+            return NC
+        if isinstance(e, ast.Tuple):
+            cs = [self.const_of(x) for x in e.elts]
+            return tuple(cs) if all(c is not NC for c in cs) else NC
+        if isinstance(e, ast.Subscript) and isinstance(e.value, ast.Name):
+            base = self.lookup(e.value.id)
+            k = self.const_of(e.slice) if not isinstance(e.slice, ast.Slice) else NC
+            if base.const is not NC and isinstance(base.const, tuple) and isinstance(k, int) and -len(base.const) <= k < len(base.const):
+                return base.const[k]
+        return NC
+
+    def resolve_slice(self, sl, top=True):
+        if isinstance(sl, ast.Slice):
+            def b(x):
+                if x is None:
+                    return None
+                c = self.const_of(x)
+                return const_node(c) if isinstance(c, int) and not isinstance(c, bool) else x
+            return ast.Slice(lower=b(sl.lower), upper=b(sl.upper), step=b(sl.step))
+        if isinstance(sl, ast.Tuple):
+            return ast.Tuple(elts=[self.resolve_slice(x, False) for x in sl.elts], ctx=ast.Load())
+        c = self.const_of(sl)
+        if isinstance(c, int) and not isinstance(c, bool):
+            return const_node(c)
+        if top and isinstance(c, tuple) and c and all(isinstance(x, int) and not isinstance(x, bool) for x in c):
+            v = self.lookup(sl.id) if isinstance(sl, ast.Name) else None
+            if v is None or (v.kind == "seq" and v.block == "tuple"):
+                return ast.Tuple(elts=[const_node(x) for x in c], ctx=ast.Load())   # U[index] with index = (r, c)
+        return sl
+
+    # ---- conditions
+    def truth(self, e):
+        """True / False when the bound constants decide the test, else None"""
+        if isinstance(e, ast.UnaryOp) and isinstance(e.op, ast.Not):
+            t = self.truth(e.operand)
+            return None if t is None else not t
+        if isinstance(e, ast.BoolOp):
+            ts = [self.truth(v) for v in e.values]
+            if isinstance(e.op, ast.And):
+                return False if any(t is False for t in ts) else True if all(t is True for t in ts) else None
+            return True if any(t is True for t in ts) else False if all(t is False for t in ts) else None
+        if isinstance(e, ast.Compare) and len(e.ops) == 1:
+            a, b = self.ev(e.left), self.ev(e.comparators[0])
+            op = e.ops[0]
+            if isinstance(op, (ast.Is, ast.IsNot)):
+                for x, y in ((a, b), (b, a)):
+                    if y.null is True and x.null is not None:
+                        return (x.null is True) == isinstance(op, ast.Is)
+                return None
+            if isinstance(op, (ast.Eq, ast.NotEq)) and a.const is not NC and b.const is not NC:
+                return (a.const == b.const) == isinstance(op, ast.Eq)
+            if isinstance(op, (ast.Lt, ast.LtE, ast.Gt, ast.GtE)) and all(isinstance(x.const, (int, float)) and
+                                                                           not isinstance(x.const, bool) for x in (a, b)):
+                return {ast.Lt: a.const < b.const, ast.LtE: a.const <= b.const, ast.Gt: a.const > b.const,
+                        ast.GtE: a.const >= b.const}[type(op)]
+            if isinstance(op, (ast.In, ast.NotIn)) and a.const is not NC and isinstance(b.const, tuple):
+                return (a.const in b.const) == isinstance(op, ast.In)
+            return None
+        v = self.ev(e)
+        if isinstance(v.const, bool):
+            return v.const
+        if v.null is True:
+            return False
+        return None
+
+    # ---- expressions
     def npname(self, e):
         if isinstance(e, ast.Call):
             d = dotted(e.func)
@@ -299,118 +693,346 @@ class Interp:
         return None
 
     def shape_lit(self, e):
-        if isinstance(e, ast.Tuple) and all(const_int(x) is not None for x in e.elts):
-            return tuple(const_int(x) for x in e.elts)
-        c = const_int(e)
-        return (c,) if c is not None else None
+        c = self.const_of(e)
+        if isinstance(c, tuple) and all(isinstance(x, int) and not isinstance(x, bool) for x in c):
+            return tuple(c)
+        return (c,) if isinstance(c, int) and not isinstance(c, bool) else None
 
     def ev(self, e) -> Val:
         if isinstance(e, ast.Constant):
-            if isinstance(e.value, (int, float)) and not isinstance(e.value, bool):
-                return Val("scalar", P if e.value > 0 else Z if e.value == 0 else A, Term(float(e.value)), shape=())
+            if isinstance(e.value, (int, float, str, tuple)) or e.value is None:
+                return self.const_val(e.value, getattr(e, "lineno", 0))
             return Val()
         if isinstance(e, ast.Name):
-            return self.env.get(e.id, Val())
+            return self.lookup(e.id)
         if isinstance(e, ast.UnaryOp):
             v = self.ev(e.operand)
             if isinstance(e.op, ast.UAdd):
                 return v
+            if isinstance(e.op, ast.Not):
+                t = self.truth(e)
+                return Val(const=t if t is not None else NC, deps=v.deps, null=False, pair=p_all_uniform([v]))
             if isinstance(e.op, ast.USub) and v.kind == "scalar":
-                return Val("scalar", Z if v.sign == Z else A, sym_mul(Term(-1.0), v.sym) if v.sym else None,
-                           shape=(), deps=v.deps)
+                c = -v.const if isinstance(v.const, (int, float)) and not isinstance(v.const, bool) else NC
+                return Val("scalar", s_neg(v.sign), sym_mul(Term(-1.0), v.sym) if v.sym else None,
+                           shape=(), deps=v.deps, const=c, null=False, pair=p_flip(v.pair))
+            if isinstance(e.op, ast.USub):
+                return Val("neg", sign=s_neg(v.sign), deps=v.deps, shape=v.shape, of=[v], null=False, pair=p_flip(v.pair))
             return Val(deps=v.deps, shape=v.shape)
         if isinstance(e, ast.Attribute):
-            v = self.ev(e.value)
-            if e.attr == "T" and v.kind == "mat":
-                return Val("matT", of=v, shape=(v.shape[1], v.shape[0]), deps=v.deps)
-            return Val(deps=v.deps)
+            return self.attribute(e)
         if isinstance(e, ast.BinOp):
             return self.binop(e)
         if isinstance(e, ast.Subscript):
             return self.subscript(e)
-        if isinstance(e, (ast.List, ast.Tuple)):
-            vs = [self.ev(x) for x in e.elts]
-            deps = set().union(*[v.deps for v in vs]) if vs else set()
-            shape = (len(vs),) if all(v.shape == () for v in vs) else None
-            return Val("seq", deps=deps, shape=shape, of=vs)
+        if isinstance(e, (ast.List, ast.Tuple, ast.Set)):
+            vs = []
+            for x in e.elts:
+                if isinstance(x, ast.Starred):
+                    items = self.static_items(self.ev(x.value))
+                    if items is None:
+                        deps = set().union(*[self.ev(y.value if isinstance(y, ast.Starred) else y).deps for y in e.elts])
+                        return Val(deps=deps, null=False)
+                    vs.extend(items)
+                else:
+                    vs.append(self.ev(x))
+            return self.mkseq(vs, getattr(e, "lineno", 0), tag="tuple" if isinstance(e, ast.Tuple) else "list")
+        if isinstance(e, ast.Dict):
+            if any(k is None for k in e.keys):
+                return Val(deps=set().union(*[self.ev(v).deps for v in e.values]) if e.values else set(), null=False)
+            pairs = [(self.ev(k), self.ev(v)) for k, v in zip(e.keys, e.values)]
+            static = all(k.const is not NC for k, _ in pairs)
+            deps = set().union(*[v.deps for _, v in pairs]) if pairs else set()
+            out = []
+            for k, v in pairs:                              # a repeated key keeps its first position, last value
+                hit = [i for i, (a, _) in enumerate(out) if a.const == k.const]
+                if hit and static:
+                    out[hit[0]] = (out[hit[0]][0], v)
+                else:
+                    out.append((k, v))
+            return Val("dict", deps=deps, of=out if static else None, null=False)
         if isinstance(e, ast.Call):
             return self.call(e)
+        if isinstance(e, (ast.ListComp, ast.SetComp, ast.GeneratorExp, ast.DictComp)):
+            return self.comprehension(e)
+        if isinstance(e, ast.IfExp):
+            t = self.truth(e.test)
+            if t is not None:
+                return self.ev(e.body if t else e.orelse)
+            a, b = self.ev(e.body), self.ev(e.orelse)
+            return Val(deps=a.deps | b.deps | self.ev(e.test).deps)
+        if isinstance(e, (ast.Compare, ast.BoolOp)):
+            t = self.truth(e)
+            deps = set()
+            for n in ast.walk(e):
+                if isinstance(n, ast.Name):
+                    deps |= self.lookup(n.id).deps
+            return Val(const=t if t is not None else NC, deps=deps, null=False)
+        if isinstance(e, ast.NamedExpr):
+            v = self.ev(e.value)
+            self.env[e.target.id] = v
+            return v
+        if isinstance(e, ast.JoinedStr):
+            return Val(null=False, pair=U_)
         deps = set()
         for n in ast.walk(e):
-            if isinstance(n, ast.Name) and n.id in self.env:
-                deps |= self.env[n.id].deps
+            if isinstance(n, ast.Name):
+                deps |= self.lookup(n.id).deps
         return Val(deps=deps)
+
+    def attribute(self, e):
+        # enum members / constants of imported names: symbolic constants that compare by their dotted text
+        d = dotted(e)
+        if d:
+            root = d.split(".")[0]
+            f, bound = self, False
+            while f is not None and not bound:
+                bound = root in f.env
+                f = f.parent
+            if not bound and root not in self.np and not self.mod.has_global(root):
+                return Val("other", const=("sym", d), null=False, pair=U_, deps={("sym", d)})
+        v = self.ev(e.value)
+        if v.fields is not None and e.attr in v.fields:
+            return v.fields[e.attr]
+        if e.attr == "T":
+            if v.kind == "mat":
+                return Val("matT", of=v, shape=(v.shape[1], v.shape[0]), deps=v.deps, null=False)
+            return Val("transposed", sign=v.sign, of=[v], deps=v.deps, null=False, pair=v.pair if v.pair == U_ else UNK,
+                       shape=tuple(reversed(v.shape)) if v.shape else v.shape)
+        return Val(deps=v.deps | {("attr", e.attr)}, pair=p_all_uniform([v]))
 
     def binop(self, e):
         a, b = self.ev(e.left), self.ev(e.right)
         deps = a.deps | b.deps
         op = e.op
+        line = getattr(e, "lineno", 0)
         if isinstance(op, ast.MatMult):
             # Gram matrix: M @ M.T or M.T @ M with the very same matrix object
             if a.kind == "mat" and b.kind == "matT" and b.of is a:
-                return Val("gram", of=a, order="UUT", shape=(a.shape[0], a.shape[0]), deps=deps, line=e.lineno)
+                return Val("gram", of=a, order="UUT", shape=(a.shape[0], a.shape[0]), deps=deps, line=line, null=False)
             if a.kind == "matT" and b.kind == "mat" and a.of is b:
-                return Val("gram", of=b, order="UTU", shape=(b.shape[1], b.shape[1]), deps=deps, line=e.lineno)
+                return Val("gram", of=b, order="UTU", shape=(b.shape[1], b.shape[1]), deps=deps, line=line, null=False)
             sa = a.shape if a.shape and len(a.shape) == 2 else None
             sb = b.shape if b.shape and len(b.shape) == 2 else None
-            return Val("matprod", deps=deps, shape=(sa[0], sb[1]) if sa and sb else None, line=e.lineno, block="prod")
+            return Val("matprod", deps=deps, shape=(sa[0], sb[1]) if sa and sb else None, line=line, block="prod",
+                       of=[a, b], null=False, pair=p_all_uniform([a, b]))
         if a.kind == "scalar" and b.kind == "scalar":
+            ca = a.const if isinstance(a.const, (int, float)) and not isinstance(a.const, bool) else None
+            cb = b.const if isinstance(b.const, (int, float)) and not isinstance(b.const, bool) else None
+            const = NC
+            if ca is not None and cb is not None:
+                try:
+                    const = {ast.Add: lambda: ca + cb, ast.Sub: lambda: ca - cb, ast.Mult: lambda: ca * cb,
+                             ast.Div: lambda: ca / cb, ast.FloorDiv: lambda: ca // cb, ast.Mod: lambda: ca % cb,
+                             ast.Pow: lambda: ca ** cb}.get(type(op), lambda: NC)()
+                except (ZeroDivisionError, OverflowError, ValueError):
+                    const = NC
+            kw = {"shape": (), "deps": deps, "const": const, "null": False}
             if isinstance(op, ast.Mult):
-                return Val("scalar", s_mul(a.sign, b.sign), sym_mul(a.sym, b.sym) if a.sym and b.sym else None, shape=(), deps=deps)
+                pair = p_scale(a.pair, b.sign) if b.pair == U_ else p_scale(b.pair, a.sign) if a.pair == U_ else UNK
+                return Val("scalar", s_mul(a.sign, b.sign), sym_mul(a.sym, b.sym) if a.sym and b.sym else None, pair=pair, **kw)
             if isinstance(op, ast.Div):
-                sign = Z if a.sign == Z and b.sign == P else P if a.sign == P and b.sign == P else A
-                return Val("scalar", sign, sym_mul(a.sym, b.sym, -1) if a.sym and b.sym else None, shape=(), deps=deps)
+                pair = p_scale(a.pair, b.sign) if b.pair == U_ else UNK
+                return Val("scalar", s_div(a.sign, b.sign) if a.sign != Z or b.sign not in (P, N) else Z,
+                           sym_mul(a.sym, b.sym, -1) if a.sym and b.sym else None, pair=pair, **kw)
             if isinstance(op, ast.Add):
-                return Val("scalar", s_add(a.sign, b.sign), sym_add(a.sym, b.sym) if a.sym and b.sym else None, shape=(), deps=deps)
+                return Val("scalar", s_add(a.sign, b.sign), sym_add(a.sym, b.sym) if a.sym and b.sym else None,
+                           pair=p_add(a.pair, b.pair), **kw)
             if isinstance(op, ast.Sub):
-                return Val("scalar", a.sign if b.sign == Z else A, sym_add(a.sym, b.sym, -1) if a.sym and b.sym else None,
-                           shape=(), deps=deps)
+                return Val("scalar", s_add(a.sign, s_neg(b.sign)), sym_add(a.sym, b.sym, -1) if a.sym and b.sym else None,
+                           pair=p_add(a.pair, p_flip(b.pair)), **kw)
             if isinstance(op, ast.Pow):
-                return Val("scalar", P if a.sign == P else A, None, shape=(), deps=deps)
-            return Val("scalar", A, None, shape=(), deps=deps)
+                return Val("scalar", P if a.sign == P else A, None, pair=p_all_uniform([a, b]), **kw)
+            return Val("scalar", A, None, pair=p_all_uniform([a, b]), **kw)
         # matrix scaled by a scalar keeps its zero pattern; positive scalar keeps positive entries
         for m, s in ((a, b), (b, a)):
             if m.kind == "mat" and s.kind == "scalar" and isinstance(op, (ast.Mult, ast.Div)) and not (m is b and isinstance(op, ast.Div)):
-                grid = [[(s_mul(x[0], s.sign) if isinstance(op, ast.Mult) else
-                          (Z if x[0] == Z and s.sign == P else P if x[0] == P and s.sign == P else A),
+                grid = [[(s_mul(x[0], s.sign) if isinstance(op, ast.Mult) else s_div(x[0], s.sign) if x[0] != Z or s.sign not in (P, N) else Z,
                           (sym_mul(x[1], s.sym, 1 if isinstance(op, ast.Mult) else -1) if x[1] is not None and s.sym is not None else None),
                           x[2]) for x in row] for row in m.grid]
-                return Val("mat", grid=grid, shape=m.shape, deps=deps)
+                r = Val("mat", grid=grid, shape=m.shape, deps=deps, null=False)
+                r.uninterp = m.uninterp
+                return r
         shape = a.shape if a.shape == b.shape else a.shape if b.shape == () else b.shape if a.shape == () else None
-        return Val(deps=deps, shape=shape)
+        if isinstance(op, ast.Mult):
+            pair = p_scale(a.pair, b.sign) if b.pair == U_ else p_scale(b.pair, a.sign) if a.pair == U_ else UNK
+            return Val("prod", sign=s_mul(a.sign, b.sign), deps=deps, shape=shape, of=[a, b], null=False, pair=pair, line=line)
+        if isinstance(op, ast.Div):
+            pair = p_scale(a.pair, b.sign) if b.pair == U_ else UNK
+            return Val("quot", sign=s_div(a.sign, b.sign), deps=deps, shape=shape, of=[a, b], null=False, pair=pair, line=line)
+        if isinstance(op, (ast.Add, ast.Sub)):
+            sg = 1 if isinstance(op, ast.Add) else -1
+            terms = []
+            for k, v in ((1, a), (sg, b)):
+                if v.kind == "sum":
+                    terms.extend((k * s, t) for s, t in v.of)
+                else:
+                    terms.append((k, v))
+            return Val("sum", sign=s_add(a.sign, b.sign if sg > 0 else s_neg(b.sign)), deps=deps, shape=shape, of=terms,
+                       null=False, pair=p_add(a.pair, b.pair if sg > 0 else p_flip(b.pair)), line=line)
+        return Val(deps=deps, shape=shape, null=False, pair=p_all_uniform([a, b]))
 
     def subscript(self, e):
         v = self.ev(e.value)
-        ix = e.slice.elts if isinstance(e.slice, ast.Tuple) else [e.slice]
-        if isinstance(e.value, ast.Name):
-            self.reads.append((e.value.id, e.slice, e.lineno))
+        sl = self.resolve_slice(e.slice)
+        ix = sl.elts if isinstance(sl, ast.Tuple) else [sl]
+        line = getattr(e, "lineno", 0)
+        self.ctx.reads.append((v, e.value.id if isinstance(e.value, ast.Name) else "", sl, line))
         if v.kind == "theta" or v.kind == "vecparam":
-            return Val("seg", deps={(v.block, txt(e.slice))}, block=txt(e.slice))
+            main, rest = ix[0], ix[1:]
+            if all(is_newaxis(x) for x in rest):
+                c = const_int(main)
+                if v.kind == "theta" and c is not None and not rest:
+                    return self.theta_slot(v, c, line)
+                return Val("seg", deps={(v.block, txt(main))}, block=txt(main), of=v, null=False, pair=U_)
+        if v.kind == "dict" and v.of is not None and not isinstance(sl, ast.Slice):
+            k = self.const_of(sl)
+            for a, b in v.of:
+                if k is not NC and a.const == k:
+                    return b
+        if v.kind == "seq" and v.of is not None and len(ix) == 1:
+            c = const_int(ix[0])
+            if c is not None and -len(v.of) <= c < len(v.of):
+                return v.of[c]
+            ext = index_extent(ix[0], len(v.of))
+            if ext and ext[0] == "slice":
+                return self.mkseq(v.of[ext[1]:ext[2]])
         if v.kind in ("gram", "mat", "factor", "matprod") and len(ix) == 2 and v.shape:
             ext = [index_extent(i, v.shape[k] if v.shape else None) for k, i in enumerate(ix)]
             if all(ext):
                 shape = tuple(x[2] - x[1] for x in ext if x[0] == "slice")
-                deps = {(v.block or v.kind, txt(e.slice))}
+                deps = {(v.block or v.kind, txt(sl))}
                 if all(x[0] == "int" for x in ext):
                     r, c = ext[0][1], ext[1][1]
                     if v.kind == "mat":
+                        if not (0 <= r < v.shape[0] and 0 <= c < v.shape[1]):
+                            raise AnalysisError(f"{FILE}:{line}: index out of the literal shape")
                         s = v.grid[r][c]
-                        return Val("scalar", s[0], s[1], shape=(), deps=deps | v.deps)
+                        return Val("scalar", s[0], s[1], shape=(), deps=deps | v.deps, null=False)
                     if v.kind == "factor":
-                        return Val("scalar", A, Term(1.0, {("U", r, c): 1}), shape=(), deps=deps)
+                        return Val("scalar", A, Term(1.0, {("U", r, c): 1}), shape=(), deps=deps, null=False)
                     if v.kind == "matprod":
-                        return Val("scalar", A, None, shape=(), deps=deps | v.deps)
+                        return Val("scalar", A, None, shape=(), deps=deps | v.deps, null=False, of=v, block=("elem", r, c))
                     # element of a Gram matrix; diagonal elements are squared row norms
-                    return Val("scalar", A, None, shape=(), deps=deps | v.deps, of=v, block=("diag" if r == c else "off", r, c))
-                return Val("block", shape=shape, deps=deps | (v.deps if v.kind != "factor" else set()), of=v, block=txt(e.slice))
-        return Val(deps=v.deps | {("?", txt(e))})
+                    return Val("scalar", A, None, shape=(), deps=deps | v.deps, of=v, block=("diag" if r == c else "off", r, c), null=False)
+                return Val("block", shape=shape, deps=deps | (v.deps if v.kind != "factor" else set()), of=v, block=txt(sl), null=False)
+        ints = [const_int(i) for i in ix]
+        if v.kind == "vstack" and len(ix) == 2 and isinstance(ix[0], ast.Slice) and ix[0].lower is None and \
+                ix[0].upper is None and ix[0].step is None and ints[1] is not None:
+            return Val("column", deps=v.deps, of=v, block=ints[1], null=False, sign=v.sign)
+        if all(i is not None for i in ints) and v.kind in ("sum", "reshaped", "matprod", "prod", "callres", "other", "neg",
+                                                              "transposed", "quot", "flat"):
+            return Val("elem", sign=v.sign, deps=v.deps | {("elem", txt(sl))}, of=v, block=tuple(ints), shape=(), null=False,
+                       pair=v.pair if v.pair == U_ else UNK)
+        # any other selection keeps the uniform sign bound; the pair order only when the pair axis is not indexed
+        keeps = all(isinstance(i, ast.Slice) and i.step is None or is_newaxis(i) for i in ix)
+        return Val(sign=v.sign, deps=v.deps | {("?", txt(e))}, null=False,
+                   pair=v.pair if (v.pair == U_ or keeps) else UNK)
+
+    def comprehension(self, e):
+        """unrolled over static sequences; otherwise an unknown value that depends on everything it mentions"""
+        def fallback():
+            deps = set()
+            for n in ast.walk(e):
+                if isinstance(n, ast.Name):
+                    deps |= self.lookup(n.id).deps
+            return Val(deps=deps, null=False)
+        saved = dict(self.env)
+        out = []
+
+        def rec(gi):
+            if gi == len(e.generators):
+                if isinstance(e, ast.DictComp):
+                    out.append((self.ev(e.key), self.ev(e.value)))
+                else:
+                    out.append(self.ev(e.elt))
+                return True
+            g = e.generators[gi]
+            if g.is_async:
+                return False
+            items = self.static_items(self.ev(g.iter))
+            if items is None or len(items) > MAX_UNROLL:
+                return False
+            for it in items:
+                self.assign(g.target, it, g.iter, None)
+                keep = True
+                for c in g.ifs:
+                    t = self.truth(c)
+                    if t is None:
+                        return False
+                    keep = keep and t
+                if keep and not rec(gi + 1):
+                    return False
+            return True
+        try:
+            ok = rec(0)
+        finally:
+            self.env = saved                      # comprehension variables do not leak
+        if not ok:
+            return fallback()
+        if isinstance(e, ast.DictComp):
+            if all(k.const is not NC for k, _ in out):
+                return Val("dict", deps=set().union(*[v.deps for _, v in out]) if out else set(), of=out, null=False)
+            return fallback()
+        return self.mkseq(out, getattr(e, "lineno", 0), tag="list")
+
+    # ---- calls
+    @staticmethod
+    def havoc(vals, line=0, why="a call that is not interpreted"):
+        """the callee is not interpreted: a matrix / container / object handed to it may have been changed in any way"""
+        for v in vals:
+            if v is None:
+                continue
+            if v.kind == "mat":
+                v.uninterp = v.uninterp or (line, why)
+                for row in v.grid:
+                    for c in range(len(row)):
+                        row[c] = (A, None, row[c][2])
+            elif v.kind in ("seq", "dict") and v.of is not None and v.const is NC:
+                v.of = None
+            if v.fields:
+                v.fields = {}
+
+    def invoke(self, fnval, e, args, kwargs):
+        """evaluate a helper by binding its parameters; returns its return value"""
+        node, defining = fnval.fn
+        if self.depth >= MAX_DEPTH:
+            raise self.err(e, "helper calls nested too deeply")
+        a = node.args
+        if a.vararg or a.kwarg:
+            raise self.err(e, f"helper {node.name} with *args/**kwargs")
+        names = [x.arg for x in a.posonlyargs + a.args]
+        if len(args) > len(names):
+            raise self.err(e, f"call of {node.name} with too many arguments")
+        bound = dict(zip(names, args))
+        kwnames = names + [x.arg for x in a.kwonlyargs]
+        for k, v in kwargs.items():
+            if k not in kwnames or k in bound:
+                raise self.err(e, f"call of {node.name} with unexpected argument {k}")
+            bound[k] = v
+        scope = defining if defining is not None else None
+        defaults = dict(zip(names[len(names) - len(a.defaults):], a.defaults))
+        defaults.update({x.arg: d for x, d in zip(a.kwonlyargs, a.kw_defaults) if d is not None})
+        for k in kwnames:
+            if k not in bound:
+                if k not in defaults:
+                    raise self.err(e, f"call of {node.name} without argument {k}")
+                bound[k] = (scope or Interp(self.ctx, node, {}, None, self.depth + 1)).ev(defaults[k])
+        self.ctx.inlined.add(node.name)
+        sub = Interp(self.ctx, node, bound, parent=scope, depth=self.depth + 1).run()
+        return sub.ret if sub.ret is not None else Val("none", const=None, null=True, pair=U_)
 
     def call(self, e):
         name = self.npname(e)
-        args = [self.ev(a) for a in e.args]
-        deps = set().union(*[a.deps for a in args]) if args else set()
-        for k in e.keywords:
-            deps |= self.ev(k.value).deps
+        starred = any(isinstance(a, ast.Starred) for a in e.args) or any(k.arg is None for k in e.keywords)
+        args = [self.ev(a.value if isinstance(a, ast.Starred) else a) for a in e.args]
+        kwargs = {k.arg: self.ev(k.value) for k in e.keywords if k.arg is not None}
+        allv = list(args) + list(kwargs.values()) + [self.ev(k.value) for k in e.keywords if k.arg is None]
+        deps = set().union(*[a.deps for a in allv]) if allv else set()
+        line = getattr(e, "lineno", 0)
+        upair = p_all_uniform(allv)
+        if name and name in self.ctx.np_hooks:
+            return self.ctx.np_hooks[name](self, e, args, kwargs)
         if name in ("zeros", "ones", "empty", "full") and e.args:
             shp = self.shape_lit(e.args[0])
             if shp and len(shp) == 2:
@@ -418,59 +1040,179 @@ class Interp:
                 if name == "full":
                     f = args[1] if len(args) > 1 else Val()
                     fill = (f.sign, f.sym) if f.kind == "scalar" else (A, None)
-                return Val("mat", grid=[[(fill[0], fill[1], e.lineno) for _ in range(shp[1])] for _ in range(shp[0])],
-                           shape=shp, line=e.lineno)
-            return Val(shape=shp)
-        if name in ("eye", "identity") and e.args and const_int(e.args[0]) is not None and len(e.args) == 1:
-            n = const_int(e.args[0])
-            return Val("mat", grid=[[(P, Term(1.0), e.lineno) if r == c else (Z, Term(0.0), e.lineno) for c in range(n)]
-                                    for r in range(n)], shape=(n, n))
-        if name == "array" and e.args and isinstance(e.args[0], (ast.List, ast.Tuple)):
-            rows = e.args[0].elts
-            if rows and all(isinstance(r, (ast.List, ast.Tuple)) for r in rows) and len({len(r.elts) for r in rows}) == 1:
-                grid = []
-                for r in rows:
-                    vs = [self.ev(x) for x in r.elts]
-                    grid.append([(v.sign, v.sym, e.lineno) if v.kind == "scalar" else (A, None, e.lineno) for v in vs])
-                return Val("mat", grid=grid, shape=(len(rows), len(rows[0].elts)), deps=deps)
-            vs = [self.ev(x) for x in rows]
-            return Val("seq", of=vs, deps=deps, shape=(len(vs),))
+                return Val("mat", grid=[[(fill[0], fill[1], line) for _ in range(shp[1])] for _ in range(shp[0])],
+                           shape=shp, line=line, null=False)
+            return Val(shape=shp, null=False, pair=upair)
+        if name in ("eye", "identity") and e.args and self.shape_lit(e.args[0]) and len(e.args) == 1:
+            n = self.shape_lit(e.args[0])[0]
+            return Val("mat", grid=[[(P, Term(1.0), line) if r == c else (Z, Term(0.0), line) for c in range(n)]
+                                    for r in range(n)], shape=(n, n), null=False)
+        if name == "array" and args:
+            rows = self.static_items(args[0])
+            if rows is not None:
+                inner = [self.static_items(r) if r.kind == "seq" else None for r in rows]
+                if rows and all(i is not None for i in inner) and len({len(i) for i in inner}) == 1 and len(inner[0]) > 0:
+                    grid = [[(v.sign, v.sym, line) if v.kind == "scalar" else (A, None, line) for v in r] for r in inner]
+                    return Val("mat", grid=grid, shape=(len(rows), len(inner[0])), deps=deps, null=False)
+                return self.mkseq(rows, line)
+            return Val(sign=args[0].sign, deps=deps, null=False, pair=args[0].pair, shape=args[0].shape)
+        if name in ("asarray", "asanyarray", "atleast_1d", "atleast_2d", "atleast_3d", "squeeze", "copy",
+                    "ascontiguousarray") and len(args) >= 1:
+            v = args[0]
+            if name in ("asarray", "copy", "asanyarray", "ascontiguousarray") and v.kind in ("mat", "seq"):
+                if v.kind == "seq":
+                    return v
+                r = Val("mat", grid=[list(r) for r in v.grid], shape=v.shape, deps=v.deps, null=False)
+                r.uninterp = v.uninterp
+                return r
+            return Val("wrapped", sign=v.sign, deps=deps, of=[v], null=False, pair=v.pair)
         if name == "exp" and len(args) == 1:
             return Val("scalar" if args[0].kind == "scalar" else "other", P,
-                       sym_exp(args[0].sym) if args[0].sym is not None else None, shape=args[0].shape, deps=deps)
+                       sym_exp(args[0].sym) if args[0].sym is not None else None, shape=args[0].shape, deps=deps,
+                       null=False, pair=args[0].pair)
         if name == "log" and len(args) == 1:
             return Val("scalar" if args[0].kind == "scalar" else "other", A,
-                       sym_log(args[0].sym) if args[0].sym is not None else None, shape=args[0].shape, deps=deps)
-        if name == "sqrt" and len(args) == 1 and args[0].kind == "scalar":
-            return Val("scalar", args[0].sign if args[0].sign in (P, Z) else A, None, shape=(), deps=deps)
+                       sym_log(args[0].sym) if args[0].sym is not None else None, shape=args[0].shape, deps=deps,
+                       null=False, pair=args[0].pair)
+        if name == "sqrt" and len(args) == 1:
+            return Val("scalar" if args[0].kind == "scalar" else "other", args[0].sign if args[0].sign in (P, Z) else A,
+                       None, shape=args[0].shape, deps=deps, null=False, pair=args[0].pair)
         if name in ("dot", "matmul") and len(args) == 2:
             fake = ast.BinOp(left=e.args[0], op=ast.MatMult(), right=e.args[1])
             ast.copy_location(fake, e)
             return self.binop(fake)
         if name == "trace":
-            return Val("scalar", A, None, shape=(), deps=deps)
-        if name == "concatenate" and e.args and isinstance(e.args[0], (ast.List, ast.Tuple)):
-            parts = [self.ev(x) for x in e.args[0].elts]
-            return Val("concat", of=parts, deps=deps, line=e.lineno)
+            return Val("scalar", A, None, shape=(), deps=deps, null=False, pair=upair)
+        if name in ("concatenate", "hstack") and args:
+            parts = self.static_items(args[0])
+            if parts is not None:
+                return Val("concat", of=parts, deps=deps, line=line, null=False, pair=upair)
+        if name == "vstack" and args:
+            rows = self.static_items(args[0])
+            if rows is not None:
+                pair = rows[0].pair if rows and all(r.pair == rows[0].pair for r in rows) else UNK
+                return Val("vstack", of=rows, deps=deps, line=line, null=False, pair=pair)
         if isinstance(e.func, ast.Attribute) and not name:
             recv = self.ev(e.func.value)
-            if e.func.attr in ("flatten", "ravel") and recv.shape is not None:
+            attr = e.func.attr
+            if recv.kind == "dict" and recv.of is not None and not args and not kwargs:
+                if attr == "items":
+                    return self.mkseq([self.mkseq([k, v]) for k, v in recv.of], tag="list")
+                if attr == "keys":
+                    return self.mkseq([k for k, _ in recv.of], tag="list")
+                if attr == "values":
+                    return self.mkseq([v for _, v in recv.of], tag="list")
+            if recv.kind == "dict" and recv.of is not None and attr == "get" and args and args[0].const is not NC:
+                for k, v in recv.of:
+                    if k.const == args[0].const:
+                        return v
+                return args[1] if len(args) > 1 else Val("none", const=None, null=True, pair=U_)
+            if attr in ("flatten", "ravel") and not args:
                 n = 1
-                for d in recv.shape:
+                for d in recv.shape or ():
                     n *= d
-                return Val("flat", shape=(n,), deps=recv.deps | deps, of=recv)
-            if e.func.attr == "reshape":
+                return Val("flat", shape=(n,) if recv.shape is not None else None, deps=recv.deps | deps, of=recv,
+                           null=False, sign=recv.sign, pair=recv.pair if recv.pair == U_ else UNK)
+            if attr == "reshape":
                 shp = self.shape_lit(e.args[0]) if len(e.args) == 1 else \
-                    tuple(const_int(a) for a in e.args) if all(const_int(a) is not None for a in e.args) else None
-                return Val("reshaped", shape=shp, deps=recv.deps | deps, of=recv)
-            if e.func.attr == "copy":
+                    tuple(self.const_of(a) for a in e.args) if all(isinstance(self.const_of(a), int) for a in e.args) else None
+                return Val("reshaped", shape=shp, deps=recv.deps | deps, of=recv, null=False, sign=recv.sign)
+            if attr == "copy":
                 if recv.kind == "mat":        # a distinct matrix object with the same entries
-                    return Val("mat", grid=[list(r) for r in recv.grid], shape=recv.shape, deps=recv.deps)
+                    r = Val("mat", grid=[list(r) for r in recv.grid], shape=recv.shape, deps=recv.deps, null=False)
+                    r.uninterp = recv.uninterp
+                    return r
                 return recv
-            return Val(deps=recv.deps | deps)
-        if isinstance(e.func, ast.Name) and e.func.id in self.mod.funcs:
-            return Val("callres", deps=deps, block=e.func.id, of=args, line=e.lineno)
-        return Val(deps=deps)
+            self.ctx.calls.append((attr, args, kwargs, line))
+            self.havoc([v for v in allv + [recv] if v.kind == "mat"], line, f"the method call .{attr}(..)")   # U.fill(..), obj.method(U)
+            return Val(deps=recv.deps | deps | {("call", attr)}, null=None, pair=p_all_uniform(allv + [recv]))
+        if isinstance(e.func, ast.Name):
+            fname = e.func.id
+            target = self.lookup(fname)
+            if target.kind == "function":                                   # closure defined in the interpreted code
+                if starred:
+                    raise self.err(e, "a helper call with * arguments")
+                return self.invoke(target, e, args, kwargs)
+            if fname in self.ctx.hooks:
+                self.ctx.calls.append((fname, args, kwargs, line))
+                return self.ctx.hooks[fname](self, e, args, kwargs)
+            if fname in self.mod.funcs:
+                self.ctx.calls.append((fname, args, kwargs, line))
+                opaque = Val("callres", deps=deps | {("call", fname)}, block=fname, of=args, line=line, null=False, pair=upair)
+                if fname in self.ctx.atoms or starred or self.depth >= MAX_DEPTH:
+                    self.havoc([v for v in allv if v.kind == "mat"], line, f"the call of {fname}")
+                    return opaque
+                mark = (len(self.ctx.stores), len(self.ctx.attr_stores))
+                try:
+                    return self.invoke(Val("function", fn=(self.mod.funcs[fname], None)), e, args, kwargs)
+                except AnalysisError:
+                    # a helper outside what the interpreter executes stays an opaque, named value; what it may have
+                    # done to its arguments is unknown
+                    del self.ctx.stores[mark[0]:]
+                    del self.ctx.attr_stores[mark[1]:]
+                    self.havoc(allv, line, f"the call of {fname}, which the interpreter cannot execute")
+                    return opaque
+            b = self.builtin(fname, e, args, kwargs)
+            if b is not None:
+                return b
+            self.ctx.calls.append((fname, args, kwargs, line))
+            self.havoc([v for v in allv if v.kind == "mat"], line, f"the call of {fname}")
+            r = Val("callres", deps=deps | {("call", fname)}, block=fname, of=args, line=line, null=False, pair=upair)
+            r.kw = kwargs
+            return r
+        # numpy functions without a transfer function above (np.fill_diagonal, np.copyto, ...) and computed callees
+        self.havoc([v for v in allv if v.kind == "mat"], line, f"the call `{txt(e.func)}`")
+        return Val(deps=deps, pair=upair)
+
+    def builtin(self, fname, e, args, kwargs):
+        if kwargs and fname not in ("zip", "enumerate"):
+            return None
+        if fname == "range" and 1 <= len(args) <= 3 and all(isinstance(a.const, int) and not isinstance(a.const, bool) for a in args):
+            r = range(*[a.const for a in args])
+            if len(r) > MAX_UNROLL:
+                raise self.err(e, "a range that is too long to unroll")
+            return self.mkseq([self.const_val(i) for i in r], tag="list")
+        if fname == "enumerate" and args:
+            items = self.static_items(args[0])
+            start = kwargs.get("start", args[1] if len(args) > 1 else None)
+            s0 = 0 if start is None else start.const
+            if items is not None and isinstance(s0, int):
+                return self.mkseq([self.mkseq([self.const_val(s0 + i), v]) for i, v in enumerate(items)], tag="list")
+            return None
+        if fname == "zip" and args:
+            cols = [self.static_items(a) for a in args]
+            if all(c is not None for c in cols):
+                if "strict" in kwargs and len({len(c) for c in cols}) > 1:
+                    raise self.err(e, "zip(strict=True) over sequences of different lengths")
+                return self.mkseq([self.mkseq(list(t)) for t in zip(*cols)], tag="list")
+            return None
+        if fname in ("list", "tuple", "reversed", "sorted") and len(args) == 1:
+            items = self.static_items(args[0])
+            if items is not None and fname != "sorted":
+                return self.mkseq(list(reversed(items)) if fname == "reversed" else items,
+                                  tag="tuple" if fname == "tuple" else "list")
+            if items is not None and all(isinstance(i.const, (int, float, str)) for i in items):
+                return self.mkseq(sorted(items, key=lambda i: i.const), tag="list")
+            return None
+        if fname == "len" and len(args) == 1:
+            items = self.static_items(args[0])
+            if items is not None:
+                return self.const_val(len(items))
+            if args[0].kind == "dict" and args[0].of is not None:
+                return self.const_val(len(args[0].of))
+            return None
+        if fname == "dict" and not args and not kwargs:
+            return Val("dict", of=[], null=False)
+        if fname == "setattr" and len(args) == 3 and isinstance(args[1].const, str):
+            self.attr_store(args[0], txt(e.args[0]), args[1].const, args[2], getattr(e, "lineno", 0))
+            return Val("none", const=None, null=True, pair=U_)
+        if fname == "getattr" and len(args) in (2, 3) and isinstance(args[1].const, str):
+            fake = ast.Attribute(value=e.args[0], attr=args[1].const, ctx=ast.Load())
+            ast.copy_location(fake, e)
+            return self.attribute(fake)
+        if fname in ("float", "int") and len(args) == 1 and args[0].kind == "scalar":
+            return args[0]
+        return None
 
 
 class Mod:
@@ -483,19 +1225,54 @@ class Mod:
         except SyntaxError as e:
             raise AnalysisError(f"{FILE} does not parse: {e}")
         self.funcs = {n.name: n for n in self.tree.body if isinstance(n, ast.FunctionDef)}
+        self.classes = {n.name for n in self.tree.body if isinstance(n, ast.ClassDef)}
         self.np = set()
+        self.gassign = {}                 # module-level NAME = expr (tables a refactor may hoist out of a function)
         for st in self.tree.body:
             if isinstance(st, ast.Import):
                 for al in st.names:
                     if al.name == "numpy":
                         self.np.add(al.asname or "numpy")
-        for f in (FWD, INV, PI2J, CHOL, APPLY, PARAMFN):
+            elif isinstance(st, ast.Assign) and len(st.targets) == 1 and isinstance(st.targets[0], ast.Name):
+                self.gassign[st.targets[0].id] = st.value
+            elif isinstance(st, ast.AnnAssign) and isinstance(st.target, ast.Name) and st.value is not None:
+                self.gassign[st.target.id] = st.value
+        self._gcache = {}
+        for f in (FWD, INV, PI2J, CHOL, APPLY, PARAMFN, BODYPI, DISPATCH):
             if f not in self.funcs:
                 raise AnalysisError(f"{FILE}: function {f} not found")
+
+    def has_global(self, name):
+        return name in self.gassign or name in self.funcs or name in self.classes
+
+    def global_val(self, name, ctx):
+        if name in self._gcache:
+            return self._gcache[name]
+        node = self.gassign.get(name)
+        if node is None:
+            return Val()
+        self._gcache[name] = Val()                        # a cyclic definition stays unknown
+        holder = ast.FunctionDef(name="<module>", args=ast.arguments(posonlyargs=[], args=[], kwonlyargs=[], kw_defaults=[],
+                                                                      defaults=[]), body=[], decorator_list=[], lineno=0)
+        try:
+            v = Interp(Ctx(self), holder, {}).ev(node)
+        except AnalysisError:
+            v = Val()
+        self._gcache[name] = v
+        return v
 
 
 def params(fn):
     return [a.arg for a in fn.args.posonlyargs + fn.args.args]
+
+
+def uniq(vals):
+    out, seen = [], set()
+    for v in vals:
+        if id(v) not in seen:
+            seen.add(id(v))
+            out.append(v)
+    return out
 
 
 # ---------------------------------------------------------------------------------------------
@@ -566,30 +1343,56 @@ def transpose_block(t):
     return ", ".join(reversed(parts)) if len(parts) == 2 else t
 
 
+
+ANCHOR_FUNCS = (FWD, INV, PI2J, CHOL, APPLY, PARAMFN)
+
+
+def make_ctx(mod, running, hooks=None, np_hooks=None):
+    """the anchors of the rules other than the function being interpreted stay opaque, named values"""
+    ctx = Ctx(mod, hooks, atoms=(set(ANCHOR_FUNCS) | {SKEW, BODYPI}) - {running} - set(hooks or ()))
+    ctx.np_hooks = dict(np_hooks or {})
+    return ctx
+
+
 def run(res, tier):
     mod = Mod()
     res.trusted = ["CPython 3.11 ast parser",
                    "theorem: U triangular with positive diagonal => U U^T positive definite => m > 0 and triangle inequalities",
-                   "np.linalg.cholesky returns the lower factor L with A = L L^T"]
+                   "np.linalg.cholesky returns the lower factor L with A = L L^T",
+                   "MuJoCo's fullinertia attribute lists M(1,1), M(2,2), M(3,3), M(1,2), M(1,3), M(2,3) (doc/XMLreference.rst, "
+                   "body/inertial/fullinertia)",
+                   "parallel-axis theorem: inertia about the body origin = inertia about the centre of mass - m S(c) S(c), "
+                   "S = skew"]
     res.rule("R-SIGN", "the factor built from theta is triangular with sign-positive diagonal, J is its Gram matrix, "
              "the mass is a diagonal element of J, the inverse map factors J with the same triangle and order", floor=FLOOR_SIGN)
     res.rule("R-TABLE", "theta slot maps of the forward and inverse map agree (inverse o forward = identity per slot); "
              "pi segments are read back at their offsets into the J blocks they came from; bound rows are in slot order",
              floor=FLOOR_TABLE)
+    res.rule("R-APPLY", "applying theta to a body writes the mass segment to body.mass, h/m to body.ipos, "
+             "I_bar + m S(ipos) S(ipos) (the inverse of pi_from_body's I_bar = I - m S S) to body.fullinertia in MuJoCo's "
+             "order, and the pseudo-inertia parameter type is dispatched to it", floor=FLOOR_APPLY)
+    res.rule("R-BOUNDS", "the pseudo-inertia Parameter gets theta as nominal value and, as lower / upper bounds, the low / "
+             "high columns of rows that are non-decreasing in their [low, high] bound pair (defaults included)",
+             floor=FLOOR_BOUNDS)
 
     # ---------------- forward map
     fwd = mod.funcs[FWD]
     fp = params(fwd)
     if len(fp) != 1:
         raise AnalysisError(f"{FWD}: expected one parameter")
-    F = Interp(mod, fwd, mod.np, {fp[0]: Val("theta", block=fp[0])}).run()
-    nslots = F.unpack.get(fp[0])
+    theta_val = Val("theta", block=fp[0], null=False, pair=U_)
+    F = Interp(make_ctx(mod, FWD), fwd, {fp[0]: theta_val}).run()
+    nslots = F.ctx.unpack.get(id(theta_val))
     if not nslots:
-        raise AnalysisError(f"{FWD}: theta is not unpacked into named slots")
-    grams = [v for v in F.env.values() if v.kind == "gram"]
+        # theta read slot by slot: the slots are the constant indices, which have to be 0..n-1
+        idx = sorted({const_int(sl) for v, _, sl, _ in F.ctx.reads if v is theta_val and const_int(sl) is not None})
+        if not idx or idx != list(range(len(idx))) or any(v is theta_val and const_int(sl) is None for v, _, sl, _ in F.ctx.reads):
+            raise AnalysisError(f"{FWD}: theta is not unpacked into named slots")
+        nslots = len(idx)
+    grams = uniq(v for v in F.env.values() if v.kind == "gram")
     if len(grams) != 1:
-        mats = [v for v in F.env.values() if v.kind == "mat" and v.shape and v.shape[0] == v.shape[1]
-                and any(x[1] is not None and x[1].pw for row in v.grid for x in row)]
+        mats = uniq(v for v in F.env.values() if v.kind == "mat" and v.shape and v.shape[0] == v.shape[1]
+                    and any(x[1] is not None and x[1].pw for row in v.grid for x in row))
         if len(mats) != 1:
             raise AnalysisError(f"{FWD}: cannot identify the factor matrix built from theta")
         prods = [v for v in F.env.values() if v.kind == "matprod"]
@@ -607,6 +1410,9 @@ def run(res, tier):
     n = U.shape[0]
     if U.shape[0] != U.shape[1]:
         raise AnalysisError(f"{FWD}: factor is not square")
+    if U.uninterp:
+        raise AnalysisError(f"{FILE}:{U.uninterp[0]}: {FWD}: the factor matrix is changed by {U.uninterp[1]}: its entries "
+                            f"cannot be decided")
     lower_zero = all(U.grid[r][c][0] == Z for r in range(n) for c in range(n) if r > c)
     upper_zero = all(U.grid[r][c][0] == Z for r in range(n) for c in range(n) if r < c)
     side = "upper" if lower_zero else "lower" if upper_zero else None
@@ -690,24 +1496,24 @@ def run(res, tier):
 
     inv = mod.funcs[INV]
     ip = params(inv)
-    I = Interp(mod, inv, mod.np, {ip[0]: Val("jparam", block=ip[0])})
     # the factor: result of a call to CHOL(J) -> symbolic matrix of ("U", r, c)
-    orig_call = I.call
-
-    def call_hook(e):
-        if isinstance(e.func, ast.Name) and e.func.id == CHOL:
-            return Val("factor", shape=(n, n), block="U", line=e.lineno)
-        d = dotted(e.func)
-        if d.split(".")[0] in mod.np and d.endswith("linalg.cholesky"):
-            return Val("factor", shape=(n, n), block="L", line=e.lineno)
-        return orig_call(e)
-    I.call = call_hook
-    I.run()
-    factors = [(k, v) for k, v in I.env.items() if v.kind == "factor"]
+    ictx = make_ctx(mod, INV,
+                    hooks={CHOL: lambda it, e, a, k: Val("factor", shape=(n, n), block="U", line=e.lineno, null=False)},
+                    np_hooks={"linalg.cholesky": lambda it, e, a, k: Val("factor", shape=(n, n), block="L", line=e.lineno, null=False)})
+    made = []
+    for key, table in ((CHOL, ictx.hooks), ("linalg.cholesky", ictx.np_hooks)):
+        def wrap(f):
+            def g(it, e, a, k):
+                v = f(it, e, a, k)
+                made.append(v)
+                return v
+            return g
+        table[key] = wrap(table[key])
+    I = Interp(ictx, inv, {ip[0]: Val("jparam", block=ip[0], null=False)}).run()
     construct = f"{INV}:factor-kind"
-    if len(factors) != 1:
+    if len(made) != 1:
         raise AnalysisError(f"{INV}: cannot identify the Cholesky factor")
-    fk = factors[0][1]
+    fk = made[0]
     inv_kind = ("upper", "UUT") if fk.block == "U" else ("lower", "UUT")
     if side is not None and (side, G.order) == inv_kind and (fk.block != "U" or (pre_ok and post_ok)):
         res.ok("R-SIGN", construct, {"file": FILE, "line": fk.line, "forward": [side, G.order], "inverse": list(inv_kind)})
@@ -716,7 +1522,7 @@ def run(res, tier):
                 f"{INV} factors J as {inv_kind} but {FWD} builds a {side or 'non-triangular'} factor with order {G.order}: the inverse map does not recover U")
 
     # ---------------- R-TABLE: slot round trip
-    if I.ret is None or I.ret.kind != "seq":
+    if I.ret is None or I.ret.kind != "seq" or I.ret.of is None:
         raise AnalysisError(f"{INV}: return value is not np.array([...]) of named slots")
     out = I.ret.of
     if len(out) != nslots:
@@ -768,11 +1574,13 @@ def run(res, tier):
     # reader 1: pseudoinertia_from_pi
     pj = mod.funcs[PI2J]
     pp = params(pj)[0]
-    R1 = Interp(mod, pj, mod.np, {pp: Val("vecparam", block=pp)}).run()
-    jret = next((k for k, v in R1.env.items() if v is R1.ret), None)
+    R1 = Interp(make_ctx(mod, PI2J), pj, {pp: Val("vecparam", block=pp, null=False, pair=U_)}).run()
+    if R1.ret is not None and R1.ret.uninterp:
+        raise AnalysisError(f"{FILE}:{R1.ret.uninterp[0]}: {PI2J}: the matrix J is changed by {R1.ret.uninterp[1]}: its blocks "
+                            f"cannot be decided")
     stores = {}
-    for base, ix, v, line in R1.stores:
-        if base == jret:
+    for base, ix, v, line, tgt in R1.stores:
+        if tgt is R1.ret:
             for d in v.deps:
                 if d[0] == pp:
                     stores.setdefault(d[1], []).append((txt(ix), line))
@@ -791,19 +1599,17 @@ def run(res, tier):
         else:
             res.bad("R-TABLE", construct, FILE, stores[hit[0]][0][1],
                     f"segment pi[{rng[0]}:{rng[1]}] is taken from J[{', '.join(sorted(blocks))}] by {FWD} but stored to J[{'], J['.join(sorted(tgt))}] by {PI2J}")
-    # reader 2: apply_body_theta_inertia
+    # reader 2: apply_body_theta_inertia (interpreted: loops over literal tables and helpers are followed)
     ap = mod.funcs[APPLY]
-    pvars = set()
-    for nnode in ast.walk(ap):
-        if isinstance(nnode, ast.Assign) and isinstance(nnode.value, ast.Call) and isinstance(nnode.value.func, ast.Name) \
-                and nnode.value.func.id == FWD and isinstance(nnode.targets[0], ast.Name):
-            pvars.add(nnode.targets[0].id)
-    if not pvars:
+    pi_val = Val("vecparam", block="pi", null=False, pair=U_)
+    actx = make_ctx(mod, APPLY, hooks={FWD: lambda it, e, a, k: pi_val})
+    Interp(actx, ap, {p: Val("arg", block=p, null=False, deps={("arg", p)}) for p in params(ap)}).run()
+    if not any(c[0] == FWD for c in actx.calls):
         raise AnalysisError(f"{APPLY}: no call of {FWD} found")
     rd = {}
-    for nnode in ast.walk(ap):
-        if isinstance(nnode, ast.Subscript) and isinstance(nnode.value, ast.Name) and nnode.value.id in pvars:
-            rd.setdefault(seg_range(txt(nnode.slice), total), []).append(nnode.lineno)
+    for v, _, sl, line in actx.reads:
+        if v is pi_val:
+            rd.setdefault(seg_range(txt(sl), total), []).append(line)
     for rng in offs:
         construct = f"pi[{rng[0]}:{rng[1]}]->{APPLY}"
         if rng in rd:
@@ -820,8 +1626,399 @@ def run(res, tier):
         if m_tgt and m_tgt != [f"{mass_idx}, {mass_idx}"]:
             res.bad("R-TABLE", f"{PI2J}:mass-index", FILE, pj.lineno, f"mass is J[{mass_idx},{mass_idx}] in {FWD} but stored to J[{m_tgt}] in {PI2J}")
 
-    bounds_rows(res, mod, nslots)
+    apply_rules(res, mod, actx, offs, total)
+    member = bounds_rules(res, mod, nslots)
+    dispatch_rule(res, mod, member)
     return finish(res, mod)
+
+
+# ---------------------------------------------------------------------------------------------
+# R-APPLY
+
+def pi_ranges(v, total):
+    return {seg_range(d[1], total) for d in v.deps if d[0] == "pi"}
+
+
+def unwrap(v):
+    while v.kind == "wrapped" or (v.kind == "callres" and v.block in ("float", "int") and v.of and len(v.of) == 1):
+        v = v.of[0]
+    return v
+
+
+def pa_info(v):
+    """(number of skew factors, sign, scale factors) of a product built from skew(..) values; None: not recognised"""
+    v = unwrap(v)
+    if v.kind == "callres" and v.block == SKEW:
+        return (1, 1, [], [v])
+    if v.kind == "neg":
+        r = pa_info(v.of[0])
+        return None if r is None else (r[0], -r[1], r[2], r[3])
+    if v.kind == "transposed":
+        r = pa_info(v.of[0])
+        return None if r is None else (r[0], r[1] * (-1) ** r[0], r[2], r[3])       # S^T = -S
+    if v.kind in ("prod", "matprod"):
+        a, b = pa_info(v.of[0]), pa_info(v.of[1])
+        if a is None or b is None:
+            return None
+        if v.kind == "matprod" and (a[0] == 0 or b[0] == 0):
+            return None
+        return (a[0] + b[0], a[1] * b[1], a[2] + b[2], a[3] + b[3])
+    if ("call", SKEW) in v.deps:
+        return None
+    return (0, 1, [v], [])
+
+
+def split_sum(v):
+    """(other terms, parallel-axis terms) of a sum as lists of (sign, Val, pa_info)"""
+    if v.kind != "sum":
+        return None
+    other, pa = [], []
+    for sg, t in v.of:
+        if ("call", SKEW) in t.deps:
+            info = pa_info(t)
+            if info is None or info[0] != 2:
+                return None
+            pa.append((sg, t, info))
+        else:
+            other.append((sg, t, None))
+    return other, pa
+
+
+def documented_fullinertia_order():
+    """the order given by the XML reference, when the tree has it (scratch copies of python/ only do not): a cross-check
+    of the trusted table, not its source"""
+    path = os.path.join(cfront.REPO, "doc", "XMLreference.rst")
+    try:
+        text = open(path, encoding="utf-8", errors="replace").read()
+    except OSError:
+        return None
+    i = text.find(".. _body-inertial-fullinertia:")
+    if i < 0:
+        return None
+    pairs = re.findall(r"M\((\d),\s*(\d)\)", text[i:i + 1200])[:6]
+    return [(int(a) - 1, int(b) - 1) for a, b in pairs] if len(pairs) == 6 else None
+
+
+def apply_rules(res, mod, actx, offs, total):
+    ap = mod.funcs[APPLY]
+    doc_order = documented_fullinertia_order()
+    if doc_order is not None and doc_order != MJ_FULLINERTIA_ORDER:
+        raise AnalysisError(f"doc/XMLreference.rst documents the fullinertia order {doc_order}, the checker trusts {MJ_FULLINERTIA_ORDER}")
+    if len(offs) != 3:
+        raise AnalysisError(f"{FWD}: expected the three segments [mass], h, I_bar of pi, found {len(offs)}")
+    seg_m, seg_h, seg_i = offs
+    elem_stores = [s for s in actx.attr_stores if s["attr"] == "fullinertia" and
+                   (s["index"] is not None or (s["val"].kind == "seq" and s["val"].of is not None and len(s["val"].of) == 6))]
+    bodies = uniq(s["obj"] for s in elem_stores)
+    if len(bodies) != 1:
+        raise AnalysisError(f"{APPLY}: cannot identify the body whose fullinertia is written ({len(bodies)} candidates)")
+    body = bodies[0]
+
+    def last_store(attr):
+        hit = [s for s in actx.attr_stores if s["obj"] is body and s["attr"] == attr and s["index"] is None and not s["aug"]]
+        return hit[-1] if hit else None
+
+    # mass
+    construct = f"{APPLY}:body.mass"
+    s = last_store("mass")
+    v = unwrap(s["val"]) if s else None
+    if s is not None and v.kind == "seg" and pi_ranges(v, total) == {seg_m}:
+        res.ok("R-APPLY", construct, {"file": FILE, "line": s["line"], "value": f"pi[{seg_m[0]}:{seg_m[1]}]"})
+        mass_val = s["val"]
+    elif s is not None and pi_ranges(v, total) == {seg_m} and v.kind != "seg":
+        raise AnalysisError(f"{FILE}:{s['line']}: {APPLY}: the value written to body.mass is not recognised")
+    else:
+        res.bad("R-APPLY", construct, FILE, s["line"] if s and s["depth"] == 0 else ap.lineno,
+                f"{APPLY}: body.mass is not set to the mass segment pi[{seg_m[0]}:{seg_m[1]}] of {FWD}'s result"
+                + (f" (it is derived from pi ranges {sorted(pi_ranges(v, total))})" if s else " (no store)"))
+        mass_val = None
+    # ipos = h / m
+    construct = f"{APPLY}:body.ipos"
+    s = last_store("ipos")
+    v = unwrap(s["val"]) if s else None
+    ipos_val = s["val"] if s else None
+    if s is not None and pi_ranges(v, total) == {seg_m, seg_h}:
+        if v.kind == "quot" and unwrap(v.of[0]).kind == "seg" and unwrap(v.of[1]).kind == "seg" and \
+                pi_ranges(v.of[0], total) == {seg_h} and pi_ranges(v.of[1], total) == {seg_m}:
+            res.ok("R-APPLY", construct, {"file": FILE, "line": s["line"], "value": f"pi[{seg_h[0]}:{seg_h[1]}] / pi[{seg_m[0]}:{seg_m[1]}]"})
+        elif v.kind == "quot" and pi_ranges(v.of[0], total) == {seg_m} and pi_ranges(v.of[1], total) == {seg_h}:
+            res.bad("R-APPLY", construct, FILE, s["line"], f"{APPLY}: body.ipos is m / h, not the first moment divided by the mass")
+        else:
+            raise AnalysisError(f"{FILE}:{s['line']}: {APPLY}: the value written to body.ipos is not recognised as h / m")
+    else:
+        res.bad("R-APPLY", construct, FILE, s["line"] if s and s["depth"] == 0 else ap.lineno,
+                f"{APPLY}: body.ipos is not set to pi[{seg_h[0]}:{seg_h[1]}] / pi[{seg_m[0]}:{seg_m[1]}] (first moment / mass)"
+                + (f" (it is derived from pi ranges {sorted(pi_ranges(v, total))})" if s else " (no store)"))
+    # fullinertia elements
+    elems = {}
+    for s in elem_stores:
+        if s["index"] is None:
+            for k, x in enumerate(s["val"].of):
+                elems[k] = (x, s["line"])
+        else:
+            k = const_int(s["index"])
+            if k is None:
+                if isinstance(s["index"], ast.Slice):
+                    continue                       # e.g. a reset of the whole vector before it is filled
+                raise AnalysisError(f"{FILE}:{s['line']}: {APPLY}: store to body.fullinertia at an index that is not a constant")
+            elems[k] = (s["val"], s["line"])
+    sources = uniq(unwrap(x).of for x, _ in elems.values() if unwrap(x).kind == "elem")
+    if len(sources) != 1 or any(unwrap(x).kind != "elem" for x, _ in elems.values()):
+        raise AnalysisError(f"{APPLY}: the values written to body.fullinertia are not elements of one matrix")
+    S = sources[0]
+    parts = split_sum(S)
+    construct = f"{APPLY}:parallel-axis"
+    if parts is None or len(parts[0]) != 1 or len(parts[1]) != 1:
+        raise AnalysisError(f"{FILE}:{S.line}: {APPLY}: the matrix written to body.fullinertia is not recognised as "
+                            f"I_bar +/- m * skew(ipos) @ skew(ipos)")
+    (sg_i, t_i, _), (sg_p, t_p, info) = parts[0][0], parts[1][0]
+    scales = [unwrap(x) for x in info[2]]
+    if not (unwrap(t_i).kind == "reshaped" and pi_ranges(t_i, total) == {seg_i} and sg_i == 1):
+        res.bad("R-APPLY", construct, FILE, S.line, f"{APPLY}: the inertia term of body.fullinertia is not +pi[{seg_i[0]}:{seg_i[1]}] "
+                f"reshaped (it is derived from pi ranges {sorted(pi_ranges(t_i, total))}, sign {sg_i:+d})")
+    elif len(scales) != 1 or (mass_val is not None and scales[0] is not unwrap(mass_val) and pi_ranges(scales[0], total) != {seg_m}):
+        res.bad("R-APPLY", construct, FILE, S.line, f"{APPLY}: the parallel-axis term is not scaled by the mass exactly once")
+    elif ipos_val is not None and any(unwrap(c.of[0]) is not unwrap(ipos_val) for c in info[3]):
+        res.bad("R-APPLY", construct, FILE, S.line, f"{APPLY}: the parallel-axis term is not built from skew of the centre of mass "
+                f"just written to body.ipos")
+    elif sg_p * info[1] != 1:
+        res.bad("R-APPLY", construct, FILE, S.line,
+                f"{APPLY}: body.fullinertia = I_bar - m S(c) S(c): the parallel-axis term has the wrong sign (the inertia about "
+                f"the centre of mass is I_bar + m S(c) S(c), S(c) S(c) being negative semi-definite)")
+    else:
+        res.ok("R-APPLY", construct, {"file": FILE, "line": S.line, "fullinertia": "I_bar + m * S(ipos) @ S(ipos)"})
+    for k, want in enumerate(MJ_FULLINERTIA_ORDER):
+        construct = f"{APPLY}:fullinertia[{k}]"
+        if k not in elems:
+            res.bad("R-APPLY", construct, FILE, ap.lineno, f"{APPLY}: body.fullinertia[{k}] is never written")
+            continue
+        x, line = elems[k]
+        got = tuple(unwrap(x).block)
+        if got == want or got == want[::-1]:
+            res.ok("R-APPLY", construct, {"file": FILE, "line": line, "element": list(got)})
+        else:
+            res.bad("R-APPLY", construct, FILE, line,
+                    f"{APPLY}: body.fullinertia[{k}] receives element {got} of the inertia matrix; MuJoCo's order puts "
+                    f"M({want[0] + 1},{want[1] + 1}) there")
+    for k in sorted(set(elems) - set(range(len(MJ_FULLINERTIA_ORDER)))):
+        res.bad("R-APPLY", f"{APPLY}:fullinertia[{k}]", FILE, elems[k][1], f"{APPLY}: body.fullinertia has 6 entries, index {k} is written")
+
+    # the map this inverts: pi_from_body
+    bp = mod.funcs[BODYPI]
+    bctx = make_ctx(mod, BODYPI)
+    B = Interp(bctx, bp, {p: Val("arg", block=p, null=False, deps={("arg", p)}) for p in params(bp)}).run()
+    construct = f"{BODYPI}:parallel-axis"
+    cands = []
+    if B.ret is not None and B.ret.kind == "concat":
+        for part in B.ret.of:
+            x = unwrap(part)
+            while x.kind in ("flat", "reshaped"):
+                x = unwrap(x.of)
+            if x.kind == "sum" and ("call", SKEW) in x.deps:
+                cands.append(x)
+    if len(cands) != 1:
+        raise AnalysisError(f"{BODYPI}: cannot identify I_bar = fullinertia -/+ m * skew(ipos) @ skew(ipos) in the returned vector")
+    parts = split_sum(cands[0])
+    if parts is None or len(parts[0]) != 1 or len(parts[1]) != 1:
+        raise AnalysisError(f"{FILE}:{cands[0].line}: {BODYPI}: I_bar is not recognised as fullinertia -/+ m * skew(ipos) @ skew(ipos)")
+    (sg_i, t_i, _), (sg_p, t_p, info) = parts[0][0], parts[1][0]
+    if len(info[2]) != 1 or ("attr", "mass") not in info[2][0].deps or any(("attr", "ipos") not in c.deps for c in info[3]):
+        raise AnalysisError(f"{FILE}:{cands[0].line}: {BODYPI}: the parallel-axis term is not m * skew(ipos) @ skew(ipos) of the body's mass and ipos")
+    if sg_i == 1 and sg_p * info[1] == -1:
+        res.ok("R-APPLY", construct, {"file": FILE, "line": cands[0].line, "I_bar": "fullinertia - m * S(ipos) @ S(ipos)"})
+    else:
+        res.bad("R-APPLY", construct, FILE, cands[0].line,
+                f"{BODYPI}: I_bar = {'+' if sg_i == 1 else '-'}fullinertia {'+' if sg_p * info[1] == 1 else '-'} m S(c) S(c): the inertia about "
+                f"the body origin is fullinertia - m S(c) S(c) (and {APPLY} inverts that form)")
+
+
+# ---------------------------------------------------------------------------------------------
+# R-BOUNDS / bound rows of R-TABLE
+
+def parameter_signature():
+    """positional parameter names of Parameter.__init__ (after self), read from parameter.py"""
+    path = os.path.join(cfront.REPO, PARAM_FILE)
+    try:
+        tree = ast.parse(open(path).read())
+    except (OSError, SyntaxError) as e:
+        raise AnalysisError(f"{PARAM_FILE}: cannot read the Parameter constructor ({e})")
+    for n in tree.body:
+        if isinstance(n, ast.ClassDef) and n.name == "Parameter":
+            for m in n.body:
+                if isinstance(m, ast.FunctionDef) and m.name == "__init__":
+                    return [a.arg for a in m.args.posonlyargs + m.args.args][1:]
+    raise AnalysisError(f"{PARAM_FILE}: class Parameter with __init__ not found")
+
+
+def enum_root_and_members(mod, fn):
+    """the enum the parameter type is selected by: annotation / default of a parameter, and its members used in the module"""
+    a = fn.args
+    allp = a.posonlyargs + a.args + a.kwonlyargs
+    defaults = dict(zip([x.arg for x in (a.posonlyargs + a.args)][len(a.posonlyargs + a.args) - len(a.defaults):], a.defaults))
+    defaults.update({x.arg: d for x, d in zip(a.kwonlyargs, a.kw_defaults) if d is not None})
+    for x in allp:
+        d = defaults.get(x.arg)
+        if isinstance(d, ast.Attribute) and isinstance(d.value, ast.Name) and not mod.has_global(d.value.id):
+            root = d.value.id
+            members = sorted({n.attr for n in ast.walk(mod.tree) if isinstance(n, ast.Attribute) and
+                              isinstance(n.value, ast.Name) and n.value.id == root})
+            return x.arg, root, members, defaults
+    raise AnalysisError(f"{fn.name}: no parameter with an enum default selects the parameter type")
+
+
+def run_param(mod, member, root, tparam, defaults, supplied):
+    fn = mod.funcs[PARAMFN]
+    theta0 = Val("theta", block="theta0", null=False, pair=U_)
+    ctx = make_ctx(mod, PARAMFN, hooks={nm: (lambda it, e, a, k: theta0) for nm in THETA_SOURCES})
+    env = {}
+    a = fn.args
+    for x in a.posonlyargs + a.args + a.kwonlyargs:
+        p = x.arg
+        d = defaults.get(p)
+        if p == tparam:
+            env[p] = Val("other", const=("sym", f"{root}.{member}"), null=False, pair=U_)
+        elif isinstance(d, ast.Constant) and d.value is None:
+            env[p] = Val("pairparam", block=p, null=False, pair=ORD, deps={("bound", p)}) if supplied else \
+                Val("none", const=None, null=True, pair=U_)
+        else:
+            env[p] = Val("arg", block=p, null=False, deps={("arg", p)}, pair=U_)
+    it = Interp(ctx, fn, env).run()
+    return it, ctx, theta0
+
+
+def bounds_rules(res, mod, nslots):
+    fn = mod.funcs[PARAMFN]
+    tparam, root, members, defaults = enum_root_and_members(mod, fn)
+    reached = []
+    for m in members:
+        try:
+            it, ctx, theta0 = run_param(mod, m, root, tparam, defaults, True)
+        except AnalysisError as e:
+            reached.append((m, None, None, None, e))
+            continue
+        if any(c[0] in THETA_SOURCES for c in ctx.calls):
+            reached.append((m, it, ctx, theta0, None))
+    hits = [r for r in reached if r[1] is not None]
+    if len(hits) != 1:
+        errs = "; ".join(f"{m}: {e}" for m, it, _, _, e in reached if e is not None)
+        raise AnalysisError(f"{PARAMFN}: expected exactly one member of {root} whose branch takes theta from "
+                            f"{' / '.join(THETA_SOURCES)}, found {[r[0] for r in hits]}" + (f" ({errs})" if errs else ""))
+    member = hits[0][0]
+    sig = parameter_signature()
+    runs = {"supplied": hits[0][1:4]}
+    it, ctx, theta0 = run_param(mod, member, root, tparam, defaults, False)
+    runs["defaults"] = (it, ctx, theta0)
+
+    def ctor_args(it):
+        r = it.ret
+        if r is None or r.kind != "callres" or r.block != "Parameter":
+            raise AnalysisError(f"{PARAMFN}: the value returned for {root}.{member} is not constructed by Parameter(...)")
+        got = dict(zip(sig, r.of))
+        got.update(getattr(r, "kw", None) or {})
+        return r, got
+
+    r, got = ctor_args(runs["supplied"][0])
+    theta0 = runs["supplied"][2]
+    for need in ("nominal", "min_value", "max_value"):
+        if need not in got:
+            raise AnalysisError(f"{PARAMFN}: Parameter(...) is called without `{need}` (signature {sig})")
+    construct = f"{PARAMFN}:nominal"
+    if unwrap(got["nominal"]) is theta0:
+        res.ok("R-BOUNDS", construct, {"file": FILE, "line": r.line, "member": f"{root}.{member}"})
+    else:
+        res.bad("R-BOUNDS", construct, FILE, r.line, f"{PARAMFN}: the nominal value of the {member} parameter is not the theta vector of the body")
+    lo, hi = unwrap(got["min_value"]), unwrap(got["max_value"])
+    construct = f"{PARAMFN}:bounds-columns"
+    if not (lo.kind == "column" and hi.kind == "column" and lo.of is hi.of and lo.of.kind == "vstack"):
+        raise AnalysisError(f"{FILE}:{r.line}: {PARAMFN}: min_value / max_value are not columns of one stack of [low, high] rows")
+    if (lo.block % 2, hi.block % 2) == (0, 1) and -2 <= lo.block < 2 and -2 <= hi.block < 2:
+        res.ok("R-BOUNDS", construct, {"file": FILE, "line": r.line, "min_value": "column 0", "max_value": "column 1"})
+    else:
+        res.bad("R-BOUNDS", construct, FILE, r.line,
+                f"{PARAMFN}: min_value is column {lo.block} and max_value column {hi.block} of the [low, high] rows: lower and upper bound are exchanged")
+    stack = lo.of
+    # rows in slot order (R-TABLE)
+    pos = 0
+    for k, row in enumerate(stack.of):
+        construct = f"{PARAMFN}:bounds-row:{k}"
+        sl = {seg_range(d[1], nslots) for d in row.deps if d[0] == theta0.block}
+        if len(sl) == 1 and None not in sl and next(iter(sl))[0] == pos:
+            rng = next(iter(sl))
+            res.ok("R-TABLE", construct, {"file": FILE, "line": stack.line, "slots": list(rng)})
+            pos = rng[1]
+        else:
+            res.bad("R-TABLE", construct, FILE, stack.line,
+                    f"{PARAMFN}: bounds row group {k} is derived from theta slots {sorted(s for s in sl if s)} but is stacked at row {pos}: "
+                    f"bounds would constrain the wrong parameters")
+            rngs = [s for s in sl if s]
+            pos = (rngs[0][1] if len(rngs) == 1 else pos + 1)
+    if pos != nslots:
+        res.bad("R-TABLE", f"{PARAMFN}:bounds-rows-total", FILE, stack.line, f"bounds cover slots up to {pos}, theta has {nslots}")
+    # every row keeps low <= high (R-BOUNDS): for a pair supplied by the caller, and for the built-in defaults
+    for mode in ("supplied", "defaults"):
+        rr, gg = ctor_args(runs[mode][0])
+        lo2 = unwrap(gg.get("min_value", Val()))
+        if lo2.kind != "column" or lo2.of.kind != "vstack" or len(lo2.of.of) != len(stack.of):
+            raise AnalysisError(f"{PARAMFN}: the bounds built from the {mode} bound pairs have a different shape")
+        for k, row in enumerate(lo2.of.of):
+            construct = f"{PARAMFN}:bounds-order:{k}:{mode}"
+            src = sorted({d[1] for d in row.deps if d[0] == "bound"})
+            if row.pair == ORD:
+                res.ok("R-BOUNDS", construct, {"file": FILE, "line": lo2.of.line, "bound_pair": src, "order": "low <= high kept"})
+            elif row.pair == REV:
+                res.bad("R-BOUNDS", construct, FILE, lo2.of.line,
+                        f"{PARAMFN}: bounds row group {k} is a decreasing function of its [low, high] pair"
+                        + (f" ({', '.join(src)})" if src else " (the default pair is written high first)")
+                        + ": the lower bound ends up above the upper bound")
+            else:
+                raise AnalysisError(f"{FILE}:{lo2.of.line}: {PARAMFN}: cannot decide whether bounds row group {k} keeps low <= high ({mode} pairs)")
+    return root, member
+
+
+def dispatch_rule(res, mod, enum_member):
+    root, member = enum_member
+    fn = mod.funcs[DISPATCH]
+    ps = params(fn)
+    tagged = []
+    for p in ps:
+        ann = next((a.annotation for a in fn.args.posonlyargs + fn.args.args if a.arg == p), None)
+        if ann is not None and dotted(ann).split(".")[-1] == "Parameter":
+            tagged.append(p)
+    if len(tagged) != 1:
+        raise AnalysisError(f"{DISPATCH}: expected one parameter annotated Parameter")
+    members = sorted({n.attr for n in ast.walk(mod.tree) if isinstance(n, ast.Attribute) and
+                      isinstance(n.value, ast.Name) and n.value.id == root})
+    result = {}
+    for m in members:
+        calls = []
+        ctx = make_ctx(mod, DISPATCH, hooks={APPLY: lambda it, e, a, k: (calls.append((a, k, e.lineno)), Val(null=False))[1]})
+        pv = Val("obj", block=tagged[0], null=False, deps={("param", tagged[0])})
+        pv.fields = {"inertia_type": Val("other", const=("sym", f"{root}.{m}"), null=False, pair=U_)}
+        env = {p: (pv if p == tagged[0] else Val("arg", block=p, null=False, deps={("arg", p)})) for p in ps}
+        Interp(ctx, fn, env).run()
+        result[m] = calls
+    construct = f"{DISPATCH}:{member}->{APPLY}"
+    ap_params = params(mod.funcs[APPLY])
+    calls = result.get(member, [])
+    stray = sorted(m for m, c in result.items() if m != member and c)
+    if len(calls) != 1:
+        res.bad("R-APPLY", construct, FILE, fn.lineno, f"{DISPATCH}: a parameter of type {root}.{member} reaches {APPLY} {len(calls)} times, expected once")
+        return
+    a, k, line = calls[0]
+    got = dict(zip(ap_params, a))
+    got.update(k)
+    tv = got.get(ap_params[-1])
+    if stray:
+        res.bad("R-APPLY", construct, FILE, line, f"{DISPATCH}: parameters of type {stray} are applied as theta vectors")
+    elif tv is None or not ({("param", tagged[0]), ("attr", "value")} <= tv.deps) or pi_like(tv):
+        res.bad("R-APPLY", construct, FILE, line, f"{DISPATCH}: {APPLY} does not receive the current value of the parameter (`{tagged[0]}.value`) as theta")
+    else:
+        res.ok("R-APPLY", construct, {"file": FILE, "line": line, "theta": f"{tagged[0]}.value"})
+
+
+def pi_like(v):
+    """the value is more than the plain attribute read (sliced, scaled, ...)"""
+    return v.kind not in ("other",) or any(d[0] in ("?", "elem", "call") for d in v.deps)
 
 
 def resolve_inverse(I, inv, i, U, read_pos):
@@ -892,84 +2089,149 @@ def sym_add(a, b, sign=1):   # noqa: F811
     return _old_add(a, b, sign)
 
 
-def bounds_rows(res, mod, nslots):
-    """rows of theta_bounds (np.vstack([...])) in body_inertia_param are derived from theta slots in slot order"""
-    fn = mod.funcs[PARAMFN]
-    # the theta vector: a name assigned from theta_inertia_from_body(...) / theta_from_pseudoinertia(...)
-    tnames = set()
-    for n in ast.walk(fn):
-        if isinstance(n, ast.Assign) and isinstance(n.value, ast.Call) and isinstance(n.value.func, ast.Name) \
-                and n.value.func.id in ("theta_inertia_from_body", INV) and isinstance(n.targets[0], ast.Name):
-            tnames.add(n.targets[0].id)
-    if not tnames:
-        raise AnalysisError(f"{PARAMFN}: theta vector not found")
-    defs = {}
-    for n in ast.walk(fn):
-        if isinstance(n, ast.Assign) and len(n.targets) == 1 and isinstance(n.targets[0], ast.Name):
-            defs.setdefault(n.targets[0].id, []).append(n.value)
-
-    def slots(e, depth=0):
-        """set of slot ranges a value is derived from (element-wise operations keep the rows)"""
-        out = set()
-        for s in ast.walk(e):
-            if isinstance(s, ast.Subscript) and isinstance(s.value, ast.Name) and s.value.id in tnames:
-                ix = s.slice.elts[0] if isinstance(s.slice, ast.Tuple) else s.slice
-                # 4 : 4 + 3 style bounds are constant-folded
-                ext = index_extent(fold(ix), nslots)
-                out.add((ext[1], ext[2]) if ext else None)
-            elif isinstance(s, ast.Name) and s.id in defs and s.id not in tnames and depth < 6:
-                for d in defs[s.id]:
-                    out |= slots(d, depth + 1)
-        return out
-    stacks = [n for n in ast.walk(fn) if isinstance(n, ast.Call) and dotted(n.func).split(".")[-1] in ("vstack", "concatenate")
-              and n.args and isinstance(n.args[0], (ast.List, ast.Tuple)) and
-              any(slots(x) for x in n.args[0].elts) and all(isinstance(x, ast.Name) for x in n.args[0].elts)]
-    stacks = [s for s in stacks if all(slots(x) for x in s.args[0].elts)]
-    if len(stacks) != 1:
-        raise AnalysisError(f"{PARAMFN}: expected one vstack of per-slot-group bounds, found {len(stacks)}")
-    pos = 0
-    for x in stacks[0].args[0].elts:
-        sl = slots(x)
-        construct = f"{PARAMFN}:bounds-row:{x.id}"
-        if len(sl) == 1 and None not in sl and next(iter(sl))[0] == pos:
-            rng = next(iter(sl))
-            res.ok("R-TABLE", construct, {"file": FILE, "line": stacks[0].lineno, "slots": list(rng)})
-            pos = rng[1]
-        else:
-            res.bad("R-TABLE", construct, FILE, stacks[0].lineno,
-                    f"{PARAMFN}: bounds rows `{x.id}` are derived from theta slots {sorted(s for s in sl if s)} but are stacked at row {pos}: "
-                    f"bounds would constrain the wrong parameters")
-            rngs = [s for s in sl if s]
-            pos = (rngs[0][1] if len(rngs) == 1 else pos + 1)
-    if pos != nslots:
-        res.bad("R-TABLE", f"{PARAMFN}:bounds-rows-total", FILE, stacks[0].lineno, f"bounds cover slots up to {pos}, theta has {nslots}")
-
-
-def fold(ix):
-    """constant-fold `a + b` in slice bounds"""
-    def f(e):
-        if e is None:
-            return None
-        if isinstance(e, ast.BinOp) and isinstance(e.op, (ast.Add, ast.Sub)):
-            a, b = const_int(f(e.left)), const_int(f(e.right))
-            if a is not None and b is not None:
-                return ast.Constant(value=a + b if isinstance(e.op, ast.Add) else a - b)
-        return e
-    if isinstance(ix, ast.Slice):
-        return ast.Slice(lower=f(ix.lower), upper=f(ix.upper), step=ix.step)
-    return f(ix)
-
 
 def finish(res, mod):
-    res.count("functions", 6)
+    res.count("functions", 8)
     res.explanation = (
-        "Abstract interpretation (ast only) of pi_from_theta over the sign domain {ZERO, POS, ANY} with a literal-shape "
-        "grid for the factor: triangular zero pattern, POS diagonal, J formed as the Gram matrix of that very matrix, "
-        "mass = a diagonal element of J; cholesky_decompose_upper conjugates np.linalg.cholesky by the index reversal "
-        "on both sides and the inverse map uses the matching factor. Symbolic exp/log/product normal form proves "
-        "theta_from_pseudoinertia(U(theta))[i] == theta[i] per slot; pi segment offsets/lengths are inferred from "
-        "shapes and compared with the readers; bound rows follow slot order.")
+        "Abstract interpretation (ast only) of model_modifier.py: loops over literal tables are unrolled, helpers and "
+        "closures are evaluated by binding their parameters, branches are taken when the bound constants decide them "
+        "(one run per parameter type), so the verdict depends on what the code computes, not on how it is laid out. "
+        "pi_from_theta over the sign domain with a literal-shape grid for the factor: triangular zero pattern, POS "
+        "diagonal, J formed as the Gram matrix of that very matrix, mass = a diagonal element of J; "
+        "cholesky_decompose_upper conjugates np.linalg.cholesky by the index reversal on both sides and the inverse map "
+        "uses the matching factor. Symbolic exp/log/product normal form proves theta_from_pseudoinertia(U(theta))[i] == "
+        "theta[i] per slot; pi segment offsets/lengths are inferred from shapes and compared with the readers; bound "
+        "rows follow slot order. apply_body_theta_inertia stores mass, h/m and I_bar + m S S in MuJoCo's fullinertia "
+        "order, inverting pi_from_body's I_bar = I - m S S; the Parameter of the pseudo-inertia type gets theta and the "
+        "low/high columns of rows that are monotone non-decreasing in their bound pairs.")
     res.not_decided = ("floating-point overflow/underflow of exp for extreme theta; that the compiled spec has the same "
-                       "mass properties (fullinertia ordering is a cross-language contract); pi_from_body's segment lengths.")
-    res.assumptions = ["theta is a real finite 10-vector", "J symmetric: a block and its transpose hold the same segment"]
+                       "mass properties (fullinertia ordering is a cross-language contract, taken from the XML reference); "
+                       "pi_from_body's segment lengths; which [low, high] pair constrains which slot group; that the "
+                       "bounds contain the nominal theta.")
+    res.assumptions = ["theta is a real finite 10-vector", "J symmetric: a block and its transpose hold the same segment",
+                       "the body mass is positive (sign of the parallel-axis term is relative to m S S)",
+                       "bound pairs supplied by the caller are given as [low, high]",
+                       "distinct members of the InertiaType enum compare unequal"]
     return None
+
+
+# ---------------------------------------------------------------------------------------------
+# self-test (thorough tier): scratch-copy mutants.  Must-fire mutants are the defects each rule exists for; controls are
+# behaviour-preserving shapes (small versions of the stored refactor E-p7) that must leave the result unchanged.
+
+_FILL = """  U[0, 0] = exp_d1
+  U[0, 1] = s12
+  U[0, 2] = s13
+  U[0, 3] = t1
+  U[1, 1] = exp_d2
+  U[1, 2] = s23
+  U[1, 3] = t2
+  U[2, 2] = exp_d3
+  U[2, 3] = t3
+  U[3, 3] = 1
+"""
+_FILL_TABLE = """  entries = {
+      (0, 0): exp_d1, (1, 1): exp_d2, (2, 2): exp_d3, (3, 3): 1,
+      (0, 1): s12, (0, 2): s13, (1, 2): s23,
+      (0, 3): t1, (1, 3): t2, (2, 3): t3,
+  }
+  for index, entry in entries.items():
+    U[index] = entry
+"""
+_EXTRACT = """  d1 = np.log(U[0, 0] / exp_alpha)
+  d2 = np.log(U[1, 1] / exp_alpha)
+  d3 = np.log(U[2, 2] / exp_alpha)
+"""
+_EXTRACT_HELPER = """  def normalized(row, col):
+    return U[row, col] / exp_alpha
+
+  d1, d2, d3 = [np.log(normalized(i, i)) for i in range(3)]
+"""
+_FULL = """  body.fullinertia[0] = fullinertia[0, 0]  # Ixx
+  body.fullinertia[1] = fullinertia[1, 1]  # Iyy
+  body.fullinertia[2] = fullinertia[2, 2]  # Izz
+  body.fullinertia[3] = fullinertia[0, 1]  # Ixy
+  body.fullinertia[4] = fullinertia[0, 2]  # Ixz
+  body.fullinertia[5] = fullinertia[1, 2]  # Iyz
+"""
+_FULL_LOOP = """  for i, index in enumerate(_FULLINERTIA_ORDER):
+    body.fullinertia[i] = fullinertia[index]
+"""
+_S_T_ROWS = """    s_bounds = theta_i_0[4 : 4 + 3, np.newaxis] + np.atleast_2d(shear_bound_off)
+"""
+_T_ROWS = """    t_bounds = theta_i_0[7:10, np.newaxis] + np.atleast_2d(ipos_bound_off)
+"""
+
+MUTANTS = [
+    # ---- R-SIGN
+    {"id": "fill-wrong-index-pair", "expect": ("R-SIGN", "pi_from_theta:U[1,0]"),
+     "edits": [(FILE, "  U[0, 1] = s12\n", "  U[1, 0] = s12\n")]},
+    {"id": "diagonal-not-exponentiated", "expect": ("R-SIGN", "pi_from_theta:U[2,2]"),
+     "edits": [(FILE, "  U[2, 2] = exp_d3\n", "  U[2, 2] = d3\n")]},
+    {"id": "mass-off-diagonal", "expect": ("R-SIGN", "pi_from_theta:mass"),
+     "edits": [(FILE, "  h = J[:3, 3]\n  m = J[3, 3]\n", "  h = J[:3, 3]\n  m = J[3, 2]\n")]},
+    {"id": "gram-of-other-order-inverse-unchanged", "expect": ("R-SIGN", "theta_from_pseudoinertia:factor-kind"),
+     "edits": [(FILE, "  J = U @ U.T\n", "  J = U.T @ U\n")]},
+    {"id": "table-fill-wrong-pair", "expect": ("R-SIGN", "pi_from_theta:U[2,1]"),
+     "edits": [(FILE, _FILL, _FILL_TABLE.replace("(1, 2): s23", "(2, 1): s23"))]},
+    # ---- R-TABLE
+    {"id": "assembly-wrong-block", "expect": ("R-TABLE", "pi[1:4]->pseudoinertia_from_pi"),
+     "edits": [(FILE, "  J[3, :3] = h\n", "  J[2, :3] = h\n")]},
+    {"id": "inverse-reads-wrong-entry", "expect": ("R-TABLE", "theta[6]"),
+     "edits": [(FILE, "  s13 = U[0, 2] / exp_alpha\n", "  s13 = U[1, 2] / exp_alpha\n")]},
+    {"id": "helper-reads-transposed-entry", "expect": ("R-TABLE", "theta[4]"),
+     "edits": [(FILE, "  s12 = U[0, 1] / exp_alpha\n", "  def normalized(row, col):\n    return U[col, row] / exp_alpha\n\n  s12 = normalized(0, 1)\n")]},
+    {"id": "bound-rows-out-of-slot-order", "expect": ("R-TABLE", "body_inertia_param:bounds-row"),
+     "edits": [(FILE, "        d_bounds,\n        s_bounds,\n", "        s_bounds,\n        d_bounds,\n")]},
+    # ---- R-APPLY
+    {"id": "parallel-axis-sign-apply", "expect": ("R-APPLY", "apply_body_theta_inertia:parallel-axis"),
+     "edits": [(FILE, "  fullinertia = I_bar + (body.mass * skew_ipos @ skew_ipos)\n", "  fullinertia = I_bar - (body.mass * skew_ipos @ skew_ipos)\n")]},
+    {"id": "parallel-axis-sign-extract", "expect": ("R-APPLY", "pi_from_body:parallel-axis"),
+     "edits": [(FILE, "  I_bar = fullinertia - (mass * skew(ipos) @ skew(ipos))\n", "  I_bar = fullinertia + (mass * skew(ipos) @ skew(ipos))\n")]},
+    {"id": "first-moment-to-wrong-field", "expect": ("R-APPLY", "apply_body_theta_inertia:body.ipos"),
+     "edits": [(FILE, "  body.ipos = pi[1:4] / pi[0]\n", "  body.iquat = pi[1:4] / pi[0]\n")]},
+    {"id": "mass-from-wrong-segment", "expect": ("R-APPLY", "apply_body_theta_inertia:body.mass"),
+     "edits": [(FILE, "  body.mass = pi[0]\n", "  body.mass = pi[1]\n")]},
+    {"id": "fullinertia-order", "expect": ("R-APPLY", "apply_body_theta_inertia:fullinertia[4]"),
+     "edits": [(FILE, "  body.fullinertia[4] = fullinertia[0, 2]  # Ixz\n  body.fullinertia[5] = fullinertia[1, 2]  # Iyz\n",
+                "  body.fullinertia[4] = fullinertia[1, 2]  # Iyz\n  body.fullinertia[5] = fullinertia[0, 2]  # Ixz\n")]},
+    {"id": "fullinertia-order-in-table", "expect": ("R-APPLY", "apply_body_theta_inertia:fullinertia[3]"),
+     "edits": [(FILE, _FULL, _FULL_LOOP), (FILE, "def apply_body_theta_inertia(\n",
+                                           "_FULLINERTIA_ORDER = ((0, 0), (1, 1), (2, 2), (1, 2), (0, 2), (0, 1))\n\n\ndef apply_body_theta_inertia(\n")]},
+    {"id": "dispatch-wrong-vector", "expect": ("R-APPLY", "apply_body_inertia:Pseudo->apply_body_theta_inertia"),
+     "edits": [(FILE, "    apply_body_theta_inertia(spec, name, param.value)\n", "    apply_body_theta_inertia(spec, name, param.nominal)\n")]},
+    # ---- R-BOUNDS
+    {"id": "bound-wrong-sign", "expect": ("R-BOUNDS", "body_inertia_param:bounds-order:0"),
+     "edits": [(FILE, "    alpha_bounds = 0.5 * np.log(mass_bounds)\n", "    alpha_bounds = -0.5 * np.log(mass_bounds)\n")]},
+    {"id": "offset-subtracted", "expect": ("R-BOUNDS", "body_inertia_param:bounds-order:2"),
+     "edits": [(FILE, _S_T_ROWS, _S_T_ROWS.replace("] + np.atleast_2d", "] - np.atleast_2d"))]},
+    {"id": "default-pair-reversed", "expect": ("R-BOUNDS", "body_inertia_param:bounds-order:3:defaults"),
+     "edits": [(FILE, "    ipos_bound_off = np.array([-0.5, 0.5])\n", "    ipos_bound_off = np.array([0.5, -0.5])\n")]},
+    {"id": "lower-upper-exchanged", "expect": ("R-BOUNDS", "body_inertia_param:bounds-columns"),
+     "edits": [(FILE, "        theta_bounds[:, 0],\n        theta_bounds[:, 1],\n", "        theta_bounds[:, 1],\n        theta_bounds[:, 0],\n")]},
+    {"id": "nominal-not-theta", "expect": ("R-BOUNDS", "body_inertia_param:nominal"),
+     "edits": [(FILE, "        param_name,\n        theta_i_0,\n", "        param_name,\n        theta_bounds.mean(axis=1),\n")]},
+    # ---- controls: behaviour-preserving shapes
+    {"id": "control-table-driven-fill", "expect": None, "edits": [(FILE, _FILL, _FILL_TABLE)]},
+    {"id": "control-helper-and-comprehension", "expect": None, "edits": [(FILE, _EXTRACT, _EXTRACT_HELPER)]},
+    {"id": "control-fullinertia-index-loop", "expect": None,
+     "edits": [(FILE, _FULL, _FULL_LOOP), (FILE, "def apply_body_theta_inertia(\n",
+                                           "_FULLINERTIA_ORDER = ((0, 0), (1, 1), (2, 2), (0, 1), (0, 2), (1, 2))\n\n\ndef apply_body_theta_inertia(\n")]},
+    {"id": "control-offset-rows-helper", "expect": None,
+     "edits": [(FILE, _S_T_ROWS, "    s_bounds = _offset_bounds(theta_i_0[4 : 4 + 3], shear_bound_off)\n"),
+               (FILE, _T_ROWS, "    t_bounds = _offset_bounds(theta_i_0[7:10], ipos_bound_off)\n"),
+               (FILE, "def body_inertia_param(\n", "def _offset_bounds(values, offsets):\n  return values[:, np.newaxis] + np.atleast_2d(offsets)\n\n\ndef body_inertia_param(\n")]},
+    {"id": "control-dispatch-early-return", "expect": None,
+     "edits": [(FILE, "  if param.inertia_type == InertiaType.Mass:\n    apply_body_mass_ipos(\n        spec, name, mass=param.value, rot_inertia_scale=param.scale_rot_inertia\n    )\n",
+                "  if param.inertia_type == InertiaType.Pseudo:\n    apply_body_theta_inertia(spec, name, param.value)\n    return\n"
+                "  if param.inertia_type == InertiaType.Mass:\n    apply_body_mass_ipos(\n        spec, name, mass=param.value, rot_inertia_scale=param.scale_rot_inertia\n    )\n")]},
+    {"id": "control-theta-indexed-not-unpacked", "expect": None,
+     "edits": [(FILE, "  alpha, d1, d2, d3, s12, s23, s13, t1, t2, t3 = theta\n  exp_alpha = np.exp(alpha)\n",
+                "  alpha, d1, d2, d3 = theta[0], theta[1], theta[2], theta[3]\n  s12, s23, s13 = theta[4], theta[5], theta[6]\n"
+                "  t1, t2, t3 = theta[7], theta[8], theta[9]\n  exp_alpha = np.exp(alpha)\n")]},
+]
+
+
+def selftest(res):
+    from .. import r_misc
+    r_misc.run_mutants("C47", res, MUTANTS, parts=("python/mujoco",))
